@@ -721,3 +721,1486 @@ Proof.
   - now apply swap_name_nonempty.
   - now apply swap_name_builtin.
 Qed.
+
+Local Open Scope nat_scope.
+
+(** * Part 2: accepted programs are lexically scoped *)
+
+(** ** Sizes (the fuel the static pass needs) *)
+Fixpoint esize (e : expr) : nat :=
+  let bs := fix bs (l : list stmt) : nat := match l with [] => 1 | s :: r => S (ssize s + bs r) end in
+  let es := fix es (l : list expr) : nat := match l with [] => 0 | x :: r => esize x + es r end in
+  match e with
+  | EInfix l _ r => S (esize l + esize r)
+  | EPrefix _ r => S (esize r)
+  | EInt _ | EFloat _ | EBool _ | EString _ | EIdent _ => 1
+  | EIf c t alt => S (esize c + bs t + match alt with Some b => bs b | None => 0 end)
+  | EFunction _ _ b => S (bs b)
+  | ECall f args => S (es args + esize f)
+  | EAssign l r => S (esize l + esize r)
+  | EArray vs => S (es vs)
+  | EIndex l i => S (esize l + esize i)
+  | EWhile c b => S (esize c + bs b)
+  end
+with ssize (s : stmt) : nat :=
+  match s with
+  | SLet _ e | SReturn e | SExpr e => S (esize e)
+  | SBlock b => S ((fix bs (l : list stmt) : nat := match l with [] => 1 | s :: r => S (ssize s + bs r) end) b)
+  | SBreak | SContinue => 1
+  end.
+Fixpoint bsize (l : list stmt) : nat := match l with [] => 1 | s :: r => S (ssize s + bsize r) end.
+Fixpoint essize (l : list expr) : nat := match l with [] => 0 | x :: r => esize x + essize r end.
+
+Lemma esize_if : forall c t alt, esize (EIf c t alt) = S (esize c + bsize t + match alt with Some b => bsize b | None => 0 end).
+Proof. reflexivity. Qed.
+Lemma esize_function : forall n ps b, esize (EFunction n ps b) = S (bsize b).
+Proof. reflexivity. Qed.
+Lemma esize_call : forall f args, esize (ECall f args) = S (essize args + esize f).
+Proof. reflexivity. Qed.
+Lemma esize_array : forall vs, esize (EArray vs) = S (essize vs).
+Proof. reflexivity. Qed.
+Lemma esize_while : forall c b, esize (EWhile c b) = S (esize c + bsize b).
+Proof. reflexivity. Qed.
+Lemma ssize_block : forall b, ssize (SBlock b) = S (bsize b).
+Proof. reflexivity. Qed.
+
+(** ** Named function literals only as whole statements *)
+Fixpoint fn_ok (named_ok : bool) (e : expr) : bool :=
+  match e with
+  | EInfix l _ r => fn_ok false l && fn_ok false r
+  | EPrefix _ r => fn_ok false r
+  | EInt _ | EFloat _ | EBool _ | EString _ | EIdent _ => true
+  | EIf c t alt => fn_ok false c && forallb fn_ok_stmt t &&
+                   match alt with Some b => forallb fn_ok_stmt b | None => true end
+  | EFunction n _ b => (named_ok || is_nil n) && forallb fn_ok_stmt b
+  | ECall f args => forallb (fn_ok false) args && fn_ok false f
+  | EAssign l r => fn_ok false l && fn_ok false r
+  | EArray vs => forallb (fn_ok false) vs
+  | EIndex l i => fn_ok false l && fn_ok false i
+  | EWhile c b => fn_ok false c && forallb fn_ok_stmt b
+  end
+with fn_ok_stmt (s : stmt) : bool :=
+  match s with
+  | SLet _ e | SReturn e => fn_ok false e
+  | SExpr e => fn_ok true e
+  | SBlock b => forallb fn_ok_stmt b
+  | SBreak | SContinue => true
+  end.
+Definition fn_ok_block (b : block) : bool := forallb fn_ok_stmt b.
+
+(** ** The static pass, unfolded *)
+Definition check_exprs (f : nat) : sctx -> list expr -> option errkind :=
+  fix go (c : sctx) (l : list expr) : option errkind :=
+    match l with
+    | [] => None
+    | x :: r => first_err (check_expr f c x) (fun _ => go c r)
+    end.
+Lemma check_exprs_cons : forall f c x r,
+  check_exprs f c (x :: r) = first_err (check_expr f c x) (fun _ => check_exprs f c r).
+Proof. reflexivity. Qed.
+
+Lemma ck_lit : forall f c e, match e with EInt _ | EFloat _ | EBool _ | EString _ => True | _ => False end ->
+  check_expr (S f) c e = None.
+Proof. intros f c e H. destruct e; try contradiction; reflexivity. Qed.
+Lemma ck_ident : forall f c x, check_expr (S f) c (EIdent x) = if s_visible c x then None else Some EReferenceError.
+Proof. reflexivity. Qed.
+Lemma ck_prefix : forall f c o r, check_expr (S f) c (EPrefix o r) = check_expr f c r.
+Proof. reflexivity. Qed.
+Lemma ck_infix : forall f c l o r, check_expr (S f) c (EInfix l o r) =
+  first_err (check_expr f c l) (fun _ => check_expr f c r).
+Proof. reflexivity. Qed.
+Lemma ck_assign_ident : forall f c x r, check_expr (S f) c (EAssign (EIdent x) r) =
+  if s_visible c x then check_expr f c r else Some EReferenceError.
+Proof. reflexivity. Qed.
+Lemma ck_assign_index : forall f c l i r, check_expr (S f) c (EAssign (EIndex l i) r) =
+  first_err (check_expr f c l) (fun _ => first_err (check_expr f c i) (fun _ => check_expr f c r)).
+Proof. reflexivity. Qed.
+Lemma ck_if : forall f c cnd t alt, check_expr (S f) c (EIf cnd t alt) =
+  first_err (check_expr f c cnd) (fun _ =>
+  first_err (check_block f (s_push c) t) (fun _ =>
+  match alt with Some b => check_block f (s_push c) b | None => None end)).
+Proof. reflexivity. Qed.
+Lemma ck_while : forall f c cnd body, check_expr (S f) c (EWhile cnd body) =
+  let c' := mkS (s_local c) (s_global c) (S (s_loops c)) in
+  first_err (check_expr f c' cnd) (fun _ => check_block f (s_push c') body).
+Proof. reflexivity. Qed.
+Lemma ck_function : forall f c name params body, check_expr (S f) c (EFunction name params body) =
+  let c1 := match name with [] => c | _ => s_declare c name end in
+  let g := match s_global c1 with Some g => g | None => s_local c1 end in
+  check_block f (mkS [rev params] (Some g) 0) body.
+Proof. reflexivity. Qed.
+Lemma ck_call : forall f c fn args, check_expr (S f) c (ECall fn args) =
+  first_err (check_exprs f c args) (fun _ =>
+    match fn with
+    | EIdent x => if is_builtin_name x then None else check_expr f c fn
+    | _ => check_expr f c fn
+    end).
+Proof. reflexivity. Qed.
+Lemma ck_array : forall f c vs, check_expr (S f) c (EArray vs) = check_exprs f c vs.
+Proof. reflexivity. Qed.
+Lemma ck_index : forall f c l i, check_expr (S f) c (EIndex l i) =
+  first_err (check_expr f c l) (fun _ => check_expr f c i).
+Proof. reflexivity. Qed.
+
+Definition root_decl (e : expr) : list text :=
+  match e with EFunction (x :: n) _ _ => [x :: n] | _ => [] end.
+Definition stmt_decl (s : stmt) : list text :=
+  match s with SLet x _ => [x] | SExpr e => root_decl e | _ => [] end.
+
+Definition check_stmt1 (f : nat) (c : sctx) (s : stmt) : option errkind :=
+  match s with
+  | SLet x e => check_expr f (s_declare c x) e
+  | SExpr e => check_expr f c e
+  | SBlock b => check_block f (s_push c) b
+  | SReturn e => match s_global c with None => Some ESyntaxError | Some _ => check_expr f c e end
+  | SBreak | SContinue => match s_loops c with O => Some ESyntaxError | S _ => None end
+  end.
+
+Lemma ck_block_nil : forall f c, check_block (S f) c [] = None.
+Proof. reflexivity. Qed.
+Lemma ck_block_cons : forall f c s r, check_block (S f) c (s :: r) =
+  first_err (check_stmt1 f c s) (fun _ => check_block f (fold_left s_declare (stmt_decl s) c) r).
+Proof.
+  intros f c s r. destruct s as [x e|e|e|b| |]; try reflexivity.
+  - cbn [check_stmt1 stmt_decl fold_left]. change (check_block (S f) c (SReturn e :: r)) with
+      (match s_global c with None => Some ESyntaxError
+       | Some _ => first_err (check_expr f c e) (fun _ => check_block f c r) end).
+    destruct (s_global c); reflexivity.
+  - destruct e; try reflexivity. destruct name; reflexivity.
+  - cbn [check_stmt1 stmt_decl fold_left]. change (check_block (S f) c (SBreak :: r)) with
+      (match s_loops c with O => Some ESyntaxError | S _ => check_block f c r end).
+    destruct (s_loops c); reflexivity.
+  - cbn [check_stmt1 stmt_decl fold_left]. change (check_block (S f) c (SContinue :: r)) with
+      (match s_loops c with O => Some ESyntaxError | S _ => check_block f c r end).
+    destruct (s_loops c); reflexivity.
+Qed.
+
+(** ** How the compiler's table evolves *)
+Definition grows (names : list text) (t t' : symtab) : Prop :=
+  exists tp k m sp s n, length names <= n /\
+    t = tp ++ [mkContext k m (sp ++ [s])] /\ t' = tp ++ [mkContext k (m + n) (sp ++ [s ++ names])].
+
+Lemma grows_extends_by : forall names t t', grows names t t' ->
+  exists n, length names <= n /\ extends_by names n t t'.
+Proof.
+  intros names t t' (tp & k & m & sp & s & n & L & -> & ->). exists n. split; [exact L|].
+  now apply <- extends_by_snoc.
+Qed.
+
+Lemma grows_refl : forall t, wf_tab t -> grows [] t t.
+Proof.
+  intros t W. destruct (wf_tab_shape _ W) as (tp & k & m & sp & s & ->).
+  exists tp, k, m, sp, s, 0. split; [cbn; lia|]. split; [reflexivity|]. now rewrite Nat.add_0_r, app_nil_r.
+Qed.
+
+Lemma grows_trans : forall a b t t1 t2, grows a t t1 -> grows b t1 t2 -> grows (a ++ b) t t2.
+Proof.
+  intros a b t t1 t2 (tp & k & m & sp & s & n & L & -> & ->) (tp' & k' & m' & sp' & s' & n' & L' & E & ->).
+  apply app_inj_tail in E. destruct E as [<- E]. injection E as <- <- E.
+  apply app_inj_tail in E. destruct E as [<- <-].
+  exists tp, k, m, sp, s, (n + n'). split; [rewrite app_length; lia|]. split; [reflexivity|].
+  now rewrite Nat.add_assoc, app_assoc.
+Qed.
+
+Lemma grows_wf : forall ns t t', wf_tab t -> grows ns t t' -> wf_tab t'.
+Proof.
+  intros ns t t' W G. destruct (grows_extends_by _ _ _ G) as (n & L & E). eapply extends_by_wf; eauto.
+Qed.
+
+Lemma grows_define : forall t x, wf_tab t -> grows [x] t (fst (define t x)).
+Proof.
+  intros t x W. destruct (wf_tab_shape _ W) as (tp & k & m & sp & s & ->).
+  rewrite define_snoc, context_define_snoc. cbn [fst].
+  exists tp, k, m, sp, s, 1. split; [cbn; lia|]. split; [reflexivity|]. now rewrite Nat.add_1_r.
+Qed.
+
+Lemma grows_block : forall ns t t1, wf_tab t -> grows ns (enter_scope t) t1 -> grows [] t (leave_scope t1).
+Proof.
+  intros ns t t1 W G. destruct (wf_tab_shape _ W) as (tp & k & m & sp & s & ->).
+  rewrite enter_scope_snoc in G. cbn [c_scope c_max c_syms] in G.
+  destruct G as (tp' & k' & m' & sp' & s' & n & L & E & ->).
+  apply app_inj_tail in E. destruct E as [<- E]. injection E as <- <- E.
+  apply app_inj_tail in E. destruct E as [<- <-].
+  rewrite leave_scope_snoc. cbn [c_scope c_max c_syms]. rewrite removelast_last.
+  exists tp, k, m, sp, s, n. split; [cbn; lia|]. split; [reflexivity|]. now rewrite app_nil_r.
+Qed.
+
+Lemma defines_new_context : forall t params,
+  fold_left (fun t p => fst (define t p)) params (new_context t) =
+  t ++ [mkContext SLocal (length params) [params]].
+Proof.
+  intros t params. unfold new_context. change (context_new SLocal) with (mkContext SLocal 0 ([] ++ [[]])).
+  rewrite defines_snoc. reflexivity.
+Qed.
+
+Lemma grows_function : forall ns t params t4,
+  grows ns (fold_left (fun t p => fst (define t p)) params (new_context t)) t4 ->
+  fst (leave_context t4) = t.
+Proof.
+  intros ns t params t4 G. rewrite defines_new_context in G.
+  destruct G as (tp' & k' & m' & sp' & s' & n & L & E & ->).
+  apply app_inj_tail in E. destruct E as [<- _]. now rewrite leave_context_snoc.
+Qed.
+
+Lemma grows_facts : forall ns t t', grows ns t t' ->
+  flat (current t') = flat (current t) ++ ns /\ length t' = length t /\
+  (2 <= length t -> global t' = global t).
+Proof.
+  intros ns t t' (tp & k & m & sp & s & n & L & -> & ->). rewrite !current_snoc. unfold flat.
+  cbn [c_syms]. rewrite !concat_snoc, !app_length, app_assoc. cbn [length]. repeat split; auto.
+  intros H. rewrite !global_snoc. destruct tp; [cbn in H; lia|reflexivity].
+Qed.
+
+(** ** The simulation relation: the compiler's table and Sem's static context show the same names *)
+Lemma in_scope_In : forall x s, in_scope x s = true <-> In x s.
+Proof.
+  intros x s. induction s as [|y s IH]; cbn [in_scope In]; [split; [discriminate|tauto]|].
+  rewrite orb_true_iff, IH, text_eqb_eq. split; intros [H|H]; auto.
+Qed.
+
+Definition names_agree (e : senv) (c : context) : Prop :=
+  forall x, in_senv x e = true <-> In x (flat c).
+
+Record simt (t : symtab) (nl : nat) (c : sctx) : Prop := mkSim {
+  sim_wf : wf_tab t;
+  sim_local : names_agree (s_local c) (current t);
+  sim_global : match s_global c with
+               | None => length t = 1
+               | Some g => 2 <= length t /\ names_agree g (global t)
+               end;
+  sim_loops : s_loops c = nl
+}.
+Definition sim (st : cstate) (c : sctx) : Prop := simt (c_symbols st) (length (c_loops st)) c.
+
+Lemma in_senv_declare : forall c x y,
+  in_senv y (s_local (s_declare c x)) = true <-> y = x \/ in_senv y (s_local c) = true.
+Proof.
+  intros c x y. unfold s_declare. destruct (s_local c) as [|s r]; cbn [s_local in_senv existsb in_scope].
+  - rewrite orb_false_r, orb_true_iff, text_eqb_eq. split; [intros [H|H]; [auto|discriminate]|intros [H|H]; [auto|discriminate]].
+  - rewrite !orb_true_iff, text_eqb_eq. tauto.
+Qed.
+
+Lemma s_global_declare : forall c x, s_global (s_declare c x) = s_global c.
+Proof. intros c x. unfold s_declare. destruct (s_local c); reflexivity. Qed.
+Lemma s_loops_declare : forall c x, s_loops (s_declare c x) = s_loops c.
+Proof. intros c x. unfold s_declare. destruct (s_local c); reflexivity. Qed.
+
+Lemma declares_facts : forall ns c,
+  (forall y, in_senv y (s_local (fold_left s_declare ns c)) = true <-> in_senv y (s_local c) = true \/ In y ns) /\
+  s_global (fold_left s_declare ns c) = s_global c /\ s_loops (fold_left s_declare ns c) = s_loops c.
+Proof.
+  induction ns as [|x ns IH]; intros c; cbn [fold_left In]; [repeat split; tauto|].
+  destruct (IH (s_declare c x)) as (A & B & C). rewrite B, C, s_global_declare, s_loops_declare.
+  repeat split; auto; rewrite A, in_senv_declare; intuition auto.
+Qed.
+
+Lemma simt_grows : forall t t' nl c ns, simt t nl c -> grows ns t t' -> simt t' nl (fold_left s_declare ns c).
+Proof.
+  intros t t' nl c ns [W L G N] Gr. destruct (grows_facts _ _ _ Gr) as (F1 & F2 & F3).
+  destruct (declares_facts ns c) as (A & B & C). split.
+  - eapply grows_wf; eauto.
+  - intros x. rewrite A, F1, in_app_iff, (L x). tauto.
+  - rewrite B. destruct (s_global c) as [g|]; [|lia]. destruct G as [G1 G2]. split; [lia|].
+    rewrite (F3 G1). exact G2.
+  - now rewrite C.
+Qed.
+
+Lemma simt_enter : forall t nl c, simt t nl c -> simt (enter_scope t) nl c.
+Proof.
+  intros t nl c [W L G N]. destruct (wf_tab_shape _ W) as (tp & k & m & sp & s & E).
+  assert (F : flat (current (enter_scope t)) = flat (current t) /\ length (enter_scope t) = length t /\
+              flat (global (enter_scope t)) = flat (global t)).
+  { subst t. rewrite enter_scope_snoc, !current_snoc, !app_length, !global_snoc. unfold flat. cbn [c_syms c_scope c_max].
+    rewrite concat_snoc, app_nil_r. repeat split. destruct tp; [cbn [c_syms]|reflexivity].
+    now rewrite concat_snoc, app_nil_r. }
+  destruct F as (F1 & F2 & F3). split.
+  - now apply enter_scope_wf.
+  - intros x. rewrite F1. apply L.
+  - rewrite F2. destruct (s_global c) as [g|]; [|exact G]. destruct G as [G1 G2]. split; [exact G1|].
+    intros x. rewrite F3. apply G2.
+  - exact N.
+Qed.
+
+Lemma simt_push : forall t nl c, simt t nl c -> simt t nl (s_push c).
+Proof. intros t nl c [W L G N]. split; auto. Qed.
+
+Lemma in_senv_single : forall x s, in_senv x [s] = true <-> In x s.
+Proof. intros. cbn [in_senv existsb]. rewrite orb_false_r. apply in_scope_In. Qed.
+
+Lemma simt_function : forall t nl c params,
+  simt t nl c ->
+  simt (fold_left (fun t p => fst (define t p)) params (new_context t)) 0
+       (mkS [rev params] (Some (match s_global c with Some g => g | None => s_local c end)) 0).
+Proof.
+  intros t nl c params [W L G N]. rewrite defines_new_context.
+  assert (HN : t <> []) by apply W. split; cbn [s_local s_global s_loops].
+  - rewrite <- defines_new_context. clear -W. assert (W' := new_context_wf _ W). revert W'.
+    generalize (new_context t). induction params as [|p ps IH]; intros t0 W0; cbn [fold_left]; [exact W0|].
+    apply IH. now apply define_wf.
+  - intros x. rewrite current_snoc, in_senv_single, <- in_rev. unfold flat. cbn [c_syms concat]. now rewrite app_nil_r.
+  - rewrite app_length. cbn [length]. split; [destruct t; [contradiction|cbn; lia]|].
+    rewrite global_snoc. destruct (s_global c) as [g|].
+    + destruct G as [G1 G2]. destruct t as [|c0 r]; [contradiction|]. exact G2.
+    + destruct t as [|c0 [|c1 r]]; [contradiction| |cbn in G; lia]. exact L.
+  - reflexivity.
+Qed.
+
+Lemma In_last_occ : forall x l i, last_occ x l = Some i -> In x l.
+Proof. intros x l i H. apply last_occ_Some in H. destruct H as [H _]. eapply nth_error_In; eauto. Qed.
+
+Lemma simt_visible : forall t nl c x s, simt t nl c -> resolve t x = Some s -> s_visible c x = true.
+Proof.
+  intros t nl c x s [W L G N] R. rewrite resolve_refines_lookup_all in R. unfold spec_resolve in R.
+  unfold s_visible. apply orb_true_iff.
+  destruct (spec_lookup (current t) x) as [s1|] eqn:E1.
+  - left. apply L. unfold spec_lookup in E1. destruct (last_occ x (flat (current t))) eqn:E; [|discriminate].
+    eapply In_last_occ; eauto.
+  - right. destruct (Nat.ltb 1 (length t)) eqn:E2; [|discriminate]. apply Nat.ltb_lt in E2.
+    destruct (s_global c) as [g|]; [|lia]. destruct G as [_ G2]. apply G2.
+    unfold spec_lookup in R. destruct (last_occ x (flat (global t))) eqn:E; [|discriminate].
+    eapply In_last_occ; eauto.
+Qed.
+
+(** ** Primitives that leave table and loop depth alone *)
+Definition pres (st st' : cstate) : Prop :=
+  c_symbols st' = c_symbols st /\ length (c_loops st') = length (c_loops st).
+Definition step (ns : list text) (st st' : cstate) : Prop :=
+  grows ns (c_symbols st) (c_symbols st') /\ length (c_loops st') = length (c_loops st).
+
+Lemma pres_refl : forall st, pres st st.
+Proof. split; reflexivity. Qed.
+Lemma pres_trans : forall a b c, pres a b -> pres b c -> pres a c.
+Proof. intros a b c [A1 A2] [B1 B2]. split; congruence. Qed.
+Lemma step_pres_r : forall ns a b c, step ns a b -> pres b c -> step ns a c.
+Proof. intros ns a b c [A1 A2] [B1 B2]. split; [rewrite B1; exact A1|congruence]. Qed.
+Lemma step_pres_l : forall ns a b c, pres a b -> step ns b c -> step ns a c.
+Proof. intros ns a b c [A1 A2] [B1 B2]. split; [rewrite <- A1; exact B1|congruence]. Qed.
+Lemma step_refl : forall st c, sim st c -> step [] st st.
+Proof. intros st c S. split; [apply grows_refl, S|reflexivity]. Qed.
+Lemma step_trans : forall a b s0 s1 s2, step a s0 s1 -> step b s1 s2 -> step (a ++ b) s0 s2.
+Proof. intros a b s0 s1 s2 [A1 A2] [B1 B2]. split; [eapply grows_trans; eauto|congruence]. Qed.
+Lemma step_sim : forall ns st st' c, sim st c -> step ns st st' -> sim st' (fold_left s_declare ns c).
+Proof. intros ns st st' c S [G L]. unfold sim. rewrite L. eapply simt_grows; eauto. Qed.
+Lemma pres_sim : forall st st' c, sim st c -> pres st st' -> sim st' c.
+Proof. intros st st' c S [A B]. unfold sim. now rewrite A, B. Qed.
+
+Lemma bind_ok : forall A B (e : outcome A) (k : A -> outcome B) r,
+  bind e k = Ok r -> exists a, e = Ok a /\ k a = Ok r.
+Proof. intros A B e k r H. destruct e; try discriminate. eauto. Qed.
+
+Lemma add_constant_pres : forall k st, pres st (fst (add_constant k st)).
+Proof. intros. unfold add_constant. destruct (const_position k (c_constants st)); split; reflexivity. Qed.
+Lemma emit_const_pres : forall k st st', emit_const k st = Ok st' -> pres st st'.
+Proof.
+  intros k st st' H. unfold emit_const in H. pose proof (add_constant_pres k st) as P.
+  destruct (add_constant k st) as [st1 o]. apply bind_ok in H. destruct H as (idx & _ & H). injection H as <-.
+  exact P.
+Qed.
+Lemma emit_sym_pres : forall op s st st', emit_sym op s st = Ok st' -> pres st st'.
+Proof.
+  intros op s st st' H. unfold emit_sym in H. apply bind_ok in H. destruct H as (idx & _ & H). injection H as <-.
+  split; reflexivity.
+Qed.
+Lemma change_jump_pres : forall i v st st', change_jump_operand_at i v st = Ok st' -> pres st st'.
+Proof.
+  intros i v st st' H. unfold change_jump_operand_at in H.
+  destruct (nth_error (c_code st) (Z.to_nat i)) as [b|]; [|discriminate].
+  destruct ((b =? byte_of_opcode OJump)%Z || (b =? byte_of_opcode OJumpIfFalse)%Z); [|discriminate].
+  injection H as <-. split; reflexivity.
+Qed.
+Lemma patch_breaks_pres : forall bs acc st', patch_breaks bs acc = Ok st' -> exists s0, acc = Ok s0 /\ pres s0 st'.
+Proof.
+  induction bs as [|ip bs IH]; intros acc st' H.
+  - exists st'. split; [exact H|apply pres_refl].
+  - unfold patch_breaks in *. cbn [fold_left] in H. apply IH in H. destruct H as (s1 & H & P1).
+    apply bind_ok in H. destruct H as (s0 & -> & H). apply bind_ok in H. destruct H as (tg & _ & H).
+    apply change_jump_pres in H. exists s0. split; [reflexivity|eapply pres_trans; eauto].
+Qed.
+Lemma const_var_infix_pres : forall name v op st, pres st (fst (compile_const_var_infix name v op st)).
+Proof.
+  intros. unfold compile_const_var_infix. pose proof (add_constant_pres (KInt v) st) as P.
+  destruct (add_constant (KInt v) st) as [st1 o]. cbn [fst] in P.
+  destruct o; try exact P. destruct (resolve (c_symbols st1) name) as [s|]; [|exact P].
+  destruct (s_scope s); [|exact P]. destruct (assoc operator_eqb op fused_table); [|exact P].
+  destruct (operand 16 (Z.of_nat (s_index s))); exact P.
+Qed.
+
+(** ** The main induction *)
+Ltac bok H a Ha := apply bind_ok in H; destruct H as (a & Ha & H).
+
+Lemma root_decl_false : forall e, fn_ok false e = true -> root_decl e = [].
+Proof.
+  intros e H. destruct e; try reflexivity. cbn [fn_ok orb] in H. destruct name; [reflexivity|discriminate].
+Qed.
+
+Lemma esize_pos : forall e, 1 <= esize e.
+Proof. destruct e; cbn [esize]; lia. Qed.
+Lemma bsize_pos : forall b, 1 <= bsize b.
+Proof. destruct b; cbn [bsize]; lia. Qed.
+
+Definition Pc (e : expr) : Prop := forall flag st st' c fuel,
+  compile_expression e st = Ok st' -> sim st c -> fn_ok flag e = true -> esize e <= fuel ->
+  check_expr fuel c e = None /\ step (root_decl e) st st'.
+Definition Qc (s : stmt) : Prop := forall st st' c f,
+  compile_statement s st = Ok st' -> sim st c -> fn_ok_stmt s = true -> ssize s <= f ->
+  check_stmt1 f c s = None /\ step (stmt_decl s) st st'.
+
+Lemma use_child : forall e, Pc e -> forall st st' c f,
+  compile_expression e st = Ok st' -> sim st c -> fn_ok false e = true -> esize e <= f ->
+  check_expr f c e = None /\ step [] st st' /\ sim st' c.
+Proof.
+  intros e P st st' c f HC HS HF HZ. destruct (P false st st' c f HC HS HF HZ) as [K T].
+  rewrite (root_decl_false _ HF) in T. split; [exact K|]. split; [exact T|]. exact (step_sim [] _ _ _ HS T).
+Qed.
+
+Lemma step_nil_trans : forall s0 s1 s2, step [] s0 s1 -> step [] s1 s2 -> step [] s0 s2.
+Proof. intros s0 s1 s2 A B. exact (step_trans [] [] _ _ _ A B). Qed.
+
+Lemma exprs_ok : forall l, Forall Pc l -> forall st st' c f,
+  compile_exprs l st = Ok st' -> sim st c -> forallb (fn_ok false) l = true -> essize l <= f ->
+  check_exprs f c l = None /\ step [] st st' /\ sim st' c.
+Proof.
+  induction 1 as [|e l He _ IH]; intros st st' c f HC HS HF HZ.
+  - injection HC as <-. split; [reflexivity|]. split; [eapply step_refl; eauto|exact HS].
+  - cbn [compile_exprs] in HC. bok HC st1 H1. cbn [forallb] in HF. apply andb_true_iff in HF. destruct HF as [HF1 HF2].
+    cbn [essize] in HZ. destruct (use_child e He st st1 c f H1 HS HF1 ltac:(lia)) as (K1 & T1 & S1).
+    destruct (IH st1 st' c f HC S1 HF2 ltac:(lia)) as (K2 & T2 & S2).
+    rewrite check_exprs_cons, K1. cbn [first_err]. split; [exact K2|]. split; [eapply step_nil_trans; eauto|exact S2].
+Qed.
+
+Lemma stmts_ok : forall b, Forall Qc b -> forall st st' c fuel,
+  compile_statements b st = Ok st' -> sim st c -> forallb fn_ok_stmt b = true -> bsize b <= fuel ->
+  check_block fuel c b = None /\ step (flat_map stmt_decl b) st st'.
+Proof.
+  induction 1 as [|s b Hs _ IH]; intros st st' c fuel HC HS HF HZ.
+  - injection HC as <-. cbn [bsize] in HZ. destruct fuel as [|f]; [lia|]. split; [reflexivity|]. eapply step_refl; eauto.
+  - cbn [compile_statements] in HC. bok HC st1 H1. cbn [forallb] in HF. apply andb_true_iff in HF. destruct HF as [HF1 HF2].
+    cbn [bsize] in HZ. destruct fuel as [|f]; [lia|].
+    destruct (Hs st st1 c f H1 HS HF1 ltac:(lia)) as (K1 & T1).
+    pose proof (step_sim _ _ _ _ HS T1) as S1.
+    destruct (IH st1 st' _ f HC S1 HF2 ltac:(lia)) as (K2 & T2).
+    rewrite ck_block_cons, K1. cbn [first_err flat_map]. split; [exact K2|]. eapply step_trans; eauto.
+Qed.
+
+Lemma sim_enter : forall st c, sim st c -> sim (set_symbols st (enter_scope (c_symbols st))) c.
+Proof. intros st c S. unfold sim. cbn [set_symbols c_symbols c_loops]. now apply simt_enter. Qed.
+
+Lemma block_statement_ok : forall b, Forall Qc b -> forall st st' c fuel,
+  block_statement b st = Ok st' -> sim st c -> forallb fn_ok_stmt b = true -> bsize b <= fuel ->
+  check_block fuel c b = None /\ step [] st st'.
+Proof.
+  intros b Hb st st' c fuel HC HS HF HZ. unfold block_statement in HC. destruct (is_nil b) eqn:EN.
+  - destruct b; [|discriminate]. injection HC as <-. cbn [bsize] in HZ. destruct fuel as [|f]; [lia|].
+    split; [reflexivity|]. eapply step_pres_r; [eapply step_refl; eauto|split; reflexivity].
+  - bok HC st1 H1. injection HC as <-.
+    destruct (stmts_ok b Hb _ st1 c fuel H1 (sim_enter _ _ HS) HF HZ) as (K & [G L]). split; [exact K|].
+    cbn [set_symbols c_symbols c_loops] in G, L. split; cbn [set_symbols c_symbols c_loops]; [|exact L].
+    eapply grows_block; [apply HS|exact G].
+Qed.
+
+Lemma block_value_ok : forall b, Forall Qc b -> forall st st' c fuel,
+  block_value b st = Ok st' -> sim st c -> forallb fn_ok_stmt b = true -> bsize b <= fuel ->
+  check_block fuel c b = None /\ step [] st st'.
+Proof.
+  intros b Hb st st' c fuel HC HS HF HZ. unfold block_value in HC. bok HC st1 H1.
+  destruct (block_statement_ok b Hb st st1 c fuel H1 HS HF HZ) as (K & T). split; [exact K|].
+  eapply step_pres_r; [exact T|]. destruct (is_nil b); [injection HC as <-; apply pres_refl|].
+  destruct (last_instruction_is OPop st1); injection HC as <-; split; reflexivity.
+Qed.
+
+Lemma sim_push : forall st c, sim st c -> sim st (s_push c).
+Proof. intros st c S. now apply simt_push. Qed.
+
+Lemma fused_candidate_shape : forall l r o n v o', fused_candidate l r o = Some (n, v, o') ->
+  (l = EIdent n /\ r = EInt v) \/ (l = EInt v /\ r = EIdent n).
+Proof.
+  intros l r o n v o' H. destruct l; try discriminate; destruct r; try discriminate; cbn [fused_candidate] in H.
+  - right. destruct (assoc operator_eqb o mirror_table); [|discriminate]. injection H as <- <- _. auto.
+  - left. injection H as <- <- _. auto.
+Qed.
+
+Lemma const_var_infix_true : forall name v op st,
+  snd (compile_const_var_infix name v op st) = true -> exists s, resolve (c_symbols st) name = Some s.
+Proof.
+  intros name v op st H. unfold compile_const_var_infix in H.
+  pose proof (add_constant_pres (KInt v) st) as [P _].
+  destruct (add_constant (KInt v) st) as [st1 o]. cbn [fst] in P. rewrite <- P.
+  destruct o; try discriminate. destruct (resolve (c_symbols st1) name) as [s|]; [eauto|discriminate].
+Qed.
+
+Lemma generic_infix_ok : forall l o r, Pc l -> Pc r -> forall st st' c f,
+  generic_infix l o r st = Ok st' -> sim st c -> fn_ok false l = true -> fn_ok false r = true ->
+  esize l + esize r <= f ->
+  check_expr f c l = None /\ check_expr f c r = None /\ step [] st st'.
+Proof.
+  intros l o r Pl Pr st st' c f HC HS HFl HFr HZ. unfold generic_infix in HC. bok HC st1 H1. bok HC st2 H2.
+  pose proof (esize_pos l). pose proof (esize_pos r).
+  destruct (use_child l Pl st st1 c f H1 HS HFl ltac:(lia)) as (K1 & T1 & S1).
+  destruct (use_child r Pr st1 st2 c f H2 S1 HFr ltac:(lia)) as (K2 & T2 & S2).
+  split; [exact K1|]. split; [exact K2|]. destruct (assoc operator_eqb o compile_operator_table); [|discriminate].
+  injection HC as <-. eapply step_nil_trans; [exact T1|]. eapply step_pres_r; [exact T2|split; reflexivity].
+Qed.
+
+Lemma loops_snoc_length : forall st x, length (c_loops st ++ [x]) = S (length (c_loops st)).
+Proof. intros. rewrite app_length. cbn. lia. Qed.
+
+Lemma compile_scoped : (forall e, Pc e) /\ (forall s, Qc s).
+Proof.
+  apply cn_ast_ind; unfold Pc, Qc.
+  - (* EInfix *)
+    intros l o r Pl Pr flag st st' c fuel HC HS HF HZ. cbn [esize] in HZ. destruct fuel as [|f]; [lia|].
+    cbn [fn_ok] in HF. apply andb_true_iff in HF. destruct HF as [HFl HFr].
+    rewrite ce_infix in HC. rewrite ck_infix. cbn [root_decl].
+    assert (G : forall st0, generic_infix l o r st0 = Ok st' -> sim st0 c -> pres st st0 ->
+                first_err (check_expr f c l) (fun _ => check_expr f c r) = None /\ step [] st st').
+    { intros st0 HG HS0 P0. destruct (generic_infix_ok l o r Pl Pr st0 st' c f HG HS0 HFl HFr ltac:(lia)) as (K1 & K2 & T).
+      rewrite K1. cbn [first_err]. split; [exact K2|]. eapply step_pres_l; eauto. }
+    destruct (fused_candidate l r o) as [[[n v] o']|] eqn:EF; [|apply (G st); [exact HC|exact HS|apply pres_refl]].
+    pose proof (const_var_infix_pres n v o' st) as P. pose proof (const_var_infix_true n v o' st) as TR.
+    destruct (compile_const_var_infix n v o' st) as [st1 d]. cbn [fst snd] in P, TR.
+    destruct d; [|apply (G st1); [exact HC|eapply pres_sim; eauto|exact P]].
+    injection HC as <-. destruct (TR eq_refl) as [s Rs]. pose proof (simt_visible _ _ _ _ _ HS Rs) as V.
+    pose proof (esize_pos l). pose proof (esize_pos r). destruct f as [|f']; [lia|].
+    split; [|eapply step_pres_r; [eapply step_refl; eauto|exact P]].
+    destruct (fused_candidate_shape _ _ _ _ _ _ EF) as [[-> ->]|[-> ->]]; rewrite ck_ident, V; reflexivity.
+  - (* EPrefix *)
+    intros o r Pr flag st st' c fuel HC HS HF HZ. cbn [esize] in HZ. destruct fuel as [|f]; [lia|].
+    cbn [fn_ok] in HF. rewrite ce_prefix in HC. bok HC st1 H1.
+    destruct (use_child r Pr st st1 c f H1 HS HF ltac:(lia)) as (K1 & T1 & S1).
+    rewrite ck_prefix. split; [exact K1|]. cbn [root_decl]. eapply step_pres_r; [exact T1|].
+    destruct o; try discriminate; injection HC as <-; split; reflexivity.
+  - (* EInt *)
+    intros z flag st st' c fuel HC HS HF HZ. cbn [esize] in HZ. destruct fuel as [|f]; [lia|].
+    split; [reflexivity|]. rewrite ce_int in HC. apply emit_const_pres in HC.
+    eapply step_pres_r; [eapply step_refl; eauto|exact HC].
+  - (* EFloat *)
+    intros x flag st st' c fuel HC HS HF HZ. cbn [esize] in HZ. destruct fuel as [|f]; [lia|].
+    split; [reflexivity|]. rewrite ce_float in HC. apply emit_const_pres in HC.
+    eapply step_pres_r; [eapply step_refl; eauto|]. eapply pres_trans; [|exact HC]. split; reflexivity.
+  - (* EBool *)
+    intros b flag st st' c fuel HC HS HF HZ. cbn [esize] in HZ. destruct fuel as [|f]; [lia|].
+    split; [reflexivity|]. rewrite ce_bool in HC. injection HC as <-.
+    eapply step_pres_r; [eapply step_refl; eauto|split; reflexivity].
+  - (* EIf *)
+    intros cnd t alt Pcnd Pt Palt flag st st' c fuel HC HS HF HZ. rewrite esize_if in HZ. destruct fuel as [|f]; [lia|].
+    cbn [fn_ok] in HF. apply andb_true_iff in HF. destruct HF as [HF HFa]. apply andb_true_iff in HF. destruct HF as [HFc HFt].
+    rewrite ce_if in HC. cbv zeta in HC. bok HC st1 H1. bok HC st3 H3. bok HC target Ht. bok HC st5 H5. bok HC st6 H6.
+    bok HC target2 Ht2.
+    destruct (use_child cnd Pcnd st st1 c f H1 HS HFc ltac:(lia)) as (K1 & T1 & S1).
+    assert (S2 : sim (emit_u16 JUMP_PLACEHOLDER (emit_opcode OJumpIfFalse st1)) (s_push c)).
+    { apply sim_push. eapply pres_sim; [exact S1|split; reflexivity]. }
+    destruct (block_value_ok t Pt _ st3 _ f H3 S2 HFt ltac:(lia)) as (K3 & T3).
+    pose proof (step_sim [] _ _ _ S2 T3) as S3. cbn [fold_left] in S3.
+    apply change_jump_pres in H5. apply change_jump_pres in HC.
+    assert (S5 : sim st5 (s_push c)).
+    { eapply pres_sim; [|exact H5]. eapply pres_sim; [exact S3|split; reflexivity]. }
+    assert (A : match alt with Some b => check_block f (s_push c) b | None => None end = None /\ step [] st5 st6).
+    { destruct alt as [b|].
+      - cbn [on_opt] in Palt. apply (block_value_ok b Palt st5 st6 _ f H6 S5 HFa). lia.
+      - injection H6 as <-. split; [reflexivity|]. eapply step_pres_r; [eapply step_refl; eauto|split; reflexivity]. }
+    destruct A as [K6 T6]. rewrite ck_if, K1. cbn [first_err]. rewrite K3. cbn [first_err]. split; [exact K6|].
+    cbn [root_decl]. eapply step_nil_trans; [exact T1|]. eapply step_pres_l; [|eapply step_nil_trans; [exact T3|]].
+    + split; reflexivity.
+    + eapply step_pres_l; [|eapply step_pres_r; [exact T6|exact HC]].
+      eapply pres_trans; [|exact H5]. split; reflexivity.
+  - (* EIdent *)
+    intros x flag st st' c fuel HC HS HF HZ. cbn [esize] in HZ. destruct fuel as [|f]; [lia|].
+    rewrite ce_ident in HC. destruct (resolve (c_symbols st) x) as [s|] eqn:R; [|discriminate].
+    rewrite ck_ident, (simt_visible _ _ _ _ _ HS R). split; [reflexivity|]. apply emit_sym_pres in HC.
+    eapply step_pres_r; [eapply step_refl; eauto|exact HC].
+  - (* EFunction *)
+    intros n ps b Pb flag st st' c fuel HC HS HF HZ. rewrite esize_function in HZ. destruct fuel as [|f]; [lia|].
+    cbn [fn_ok] in HF. apply andb_true_iff in HF. destruct HF as [_ HFb].
+    rewrite ce_function in HC. rewrite ck_function. cbv zeta.
+    set (c1 := match n with [] => c | _ :: _ => s_declare c n end).
+    (* the state after the optional declaration of the name *)
+    assert (D : exists st1 sym, (if is_nil n then (st, None)
+                  else let '(t, s) := define (c_symbols st) n in (set_symbols st t, Some s)) = (st1, sym) /\
+                sim st1 c1 /\ step (root_decl (EFunction n ps b)) st st1 /\ c_loops st1 = c_loops st).
+    { destruct n as [|x n']; cbn [is_nil root_decl]; subst c1.
+      - exists st, None. split; [reflexivity|]. split; [exact HS|]. split; [eapply step_refl; eauto|reflexivity].
+      - pose proof (grows_define (c_symbols st) (x :: n') (sim_wf _ _ _ HS)) as G.
+        destruct (define (c_symbols st) (x :: n')) as [t1 sy]. cbn [fst] in G. exists (set_symbols st t1), (Some sy).
+        assert (T : step [x :: n'] st (set_symbols st t1)) by (split; [exact G|reflexivity]).
+        split; [reflexivity|]. split; [exact (step_sim _ _ _ _ HS T)|]. split; [exact T|reflexivity]. }
+    destruct D as (st1 & sym & ED & S1 & T1 & L1). rewrite ED in HC. clear ED. cbv zeta in HC.
+    bok HC st4 H4. bok HC target Ht. bok HC st7 H7.
+    set (t3 := fold_left (fun t p => fst (define t p)) ps (new_context (c_symbols st1))) in *.
+    assert (S3 : sim (set_loops (set_symbols (emit_u16 JUMP_PLACEHOLDER (emit_opcode OJump st1)) t3) [])
+                     (mkS [rev ps] (Some (match s_global c1 with Some g => g | None => s_local c1 end)) 0)).
+    { unfold sim. cbn [set_loops set_symbols c_symbols c_loops length]. subst t3. eapply simt_function. exact S1. }
+    destruct (block_statement_ok b Pb _ st4 _ f H4 S3 HFb ltac:(lia)) as (K4 & [G4 L4]).
+    split; [exact K4|]. cbn [set_loops set_symbols c_symbols c_loops emit_u16 emit_opcode] in G4.
+    apply change_jump_pres in H7. destruct H7 as [Y7 Z7].
+    assert (Y4 : c_symbols st7 = c_symbols st4).
+    { rewrite Y7. destruct (last_instruction_is OPop _); [reflexivity|]. destruct (last_instruction_is OReturnValue _); reflexivity. }
+    assert (Z4 : length (c_loops st7) = length (c_loops st1)).
+    { rewrite Z7. destruct (last_instruction_is OPop _); [reflexivity|]. destruct (last_instruction_is OReturnValue _); reflexivity. }
+    pose proof (grows_function _ _ _ _ G4) as R8. rewrite <- Y4 in R8.
+    destruct (leave_context (c_symbols st7)) as [t8 nl]. cbn [fst] in R8. subst t8.
+    bok HC ip Hip. bok HC nlz Hnl.
+    pose proof (add_constant_pres (KFun ip nlz) (set_symbols st7 (c_symbols st1))) as [Y9 Z9].
+    destruct (add_constant (KFun ip nlz) (set_symbols st7 (c_symbols st1))) as [st9 o]. cbn [fst] in Y9, Z9.
+    cbn [set_symbols c_symbols c_loops] in Y9, Z9. bok HC idx Hidx.
+    eapply step_pres_r; [exact T1|].
+    destruct sym as [sy|].
+    + bok HC st11 H11. injection HC as <-. apply emit_sym_pres in H11. destruct H11 as [Y11 Z11].
+      split; cbn [emit_u16 emit_opcode c_symbols c_loops] in *; congruence.
+    + injection HC as <-. split; cbn [emit_u16 emit_opcode c_symbols c_loops] in *; congruence.
+  - (* ECall *)
+    intros fn args Pfn Pargs flag st st' c fuel HC HS HF HZ. rewrite esize_call in HZ. destruct fuel as [|f]; [lia|].
+    cbn [fn_ok] in HF. apply andb_true_iff in HF. destruct HF as [HFa HFf].
+    rewrite ce_call in HC. cbv zeta in HC. bok HC st1 H1.
+    destruct (exprs_ok args Pargs st st1 c f H1 HS HFa ltac:(lia)) as (K1 & T1 & S1).
+    rewrite ck_call, K1. cbn [first_err root_decl].
+    assert (G : (do st2 <- compile_expression fn st1; do n <- operand 8 (zlength args); Ok (emit_u8 n (emit_opcode OCall st2))) = Ok st' ->
+                check_expr f c fn = None /\ step [] st st').
+    { intros HG. bok HG st2 H2. bok HG nn Hn. injection HG as <-.
+      destruct (use_child fn Pfn st1 st2 c f H2 S1 HFf ltac:(lia)) as (K2 & T2 & S2). split; [exact K2|].
+      eapply step_nil_trans; [exact T1|]. eapply step_pres_r; [exact T2|split; reflexivity]. }
+    destruct fn; try (apply G; exact HC).
+    unfold is_builtin_name. destruct (assoc_text s builtin_names) as [bi|]; [|apply G; exact HC].
+    bok HC nn Hn. injection HC as <-. split; [reflexivity|]. eapply step_pres_r; [exact T1|split; reflexivity].
+  - (* EAssign *)
+    intros l r Pl Pli Pr flag st st' c fuel HC HS HF HZ. cbn [esize] in HZ. destruct fuel as [|f]; [lia|].
+    cbn [fn_ok] in HF. apply andb_true_iff in HF. destruct HF as [HFl HFr].
+    rewrite ce_assign in HC. cbn [root_decl]. destruct l; try discriminate.
+    + destruct (resolve (c_symbols st) s) as [sy|] eqn:R; [|discriminate]. bok HC st1 H1. bok HC st2 H2.
+      apply emit_sym_pres in H2. apply emit_sym_pres in HC.
+      destruct (use_child r Pr st st1 c f H1 HS HFr ltac:(lia)) as (K1 & T1 & S1).
+      rewrite ck_assign_ident, (simt_visible _ _ _ _ _ HS R). split; [exact K1|].
+      eapply step_pres_r; [exact T1|eapply pres_trans; eauto].
+    + destruct Pli as [Pl1 Pl2]. cbn [fn_ok] in HFl. apply andb_true_iff in HFl. destruct HFl as [HF1 HF2].
+      cbn [esize] in HZ. bok HC st1 H1. bok HC st2 H2. bok HC st3 H3. injection HC as <-.
+      destruct (use_child l1 Pl1 st st1 c f H1 HS HF1 ltac:(lia)) as (K1 & T1 & S1).
+      destruct (use_child l2 Pl2 st1 st2 c f H2 S1 HF2 ltac:(lia)) as (K2 & T2 & S2).
+      destruct (use_child r Pr st2 st3 c f H3 S2 HFr ltac:(lia)) as (K3 & T3 & S3).
+      rewrite ck_assign_index, K1. cbn [first_err]. rewrite K2. cbn [first_err]. split; [exact K3|].
+      eapply step_nil_trans; [exact T1|]. eapply step_nil_trans; [exact T2|].
+      eapply step_pres_r; [exact T3|split; reflexivity].
+  - (* EString *)
+    intros x flag st st' c fuel HC HS HF HZ. cbn [esize] in HZ. destruct fuel as [|f]; [lia|].
+    split; [reflexivity|]. rewrite ce_string in HC. apply emit_const_pres in HC.
+    eapply step_pres_r; [eapply step_refl; eauto|]. eapply pres_trans; [|exact HC]. split; reflexivity.
+  - (* EArray *)
+    intros vs Pvs flag st st' c fuel HC HS HF HZ. rewrite esize_array in HZ. destruct fuel as [|f]; [lia|].
+    cbn [fn_ok] in HF. rewrite ce_array in HC. cbv zeta in HC. bok HC st1 H1. bok HC nn Hn. injection HC as <-.
+    destruct (exprs_ok vs Pvs st st1 c f H1 HS HF ltac:(lia)) as (K1 & T1 & S1).
+    rewrite ck_array. split; [exact K1|]. cbn [root_decl]. eapply step_pres_r; [exact T1|split; reflexivity].
+  - (* EIndex *)
+    intros l i Pl Pi flag st st' c fuel HC HS HF HZ. cbn [esize] in HZ. destruct fuel as [|f]; [lia|].
+    cbn [fn_ok] in HF. apply andb_true_iff in HF. destruct HF as [HFl HFi].
+    rewrite ce_index in HC. bok HC st1 H1. bok HC st2 H2. injection HC as <-.
+    destruct (use_child l Pl st st1 c f H1 HS HFl ltac:(lia)) as (K1 & T1 & S1).
+    destruct (use_child i Pi st1 st2 c f H2 S1 HFi ltac:(lia)) as (K2 & T2 & S2).
+    rewrite ck_index, K1. cbn [first_err]. split; [exact K2|]. cbn [root_decl].
+    eapply step_nil_trans; [exact T1|]. eapply step_pres_r; [exact T2|split; reflexivity].
+  - (* EWhile *)
+    intros cnd b Pcnd Pb flag st st' c fuel HC HS HF HZ. rewrite esize_while in HZ. destruct fuel as [|f]; [lia|].
+    cbn [fn_ok] in HF. apply andb_true_iff in HF. destruct HF as [HFc HFb].
+    rewrite ce_while in HC. cbv zeta in HC. bok HC st3 H3. bok HC st5 H5. bok HC back Hb. bok HC target Ht. bok HC st8 H8.
+    rewrite ck_while. cbv zeta. set (c' := mkS (s_local c) (s_global c) (S (s_loops c))).
+    set (st2 := set_loops (emit_opcode ONull st) _) in H3.
+    assert (S2 : sim st2 c').
+    { destruct HS as [W L G N]. subst st2 c'. unfold sim. cbn [set_loops emit_opcode c_symbols c_loops].
+      rewrite loops_snoc_length. split; cbn [s_local s_global s_loops]; auto. }
+    destruct (use_child cnd Pcnd st2 st3 c' f H3 S2 HFc ltac:(lia)) as (K3 & T3 & S3).
+    assert (S4 : sim (emit_opcode OPop (emit_u16 JUMP_PLACEHOLDER (emit_opcode OJumpIfFalse st3))) (s_push c')).
+    { apply sim_push. eapply pres_sim; [exact S3|split; reflexivity]. }
+    destruct (block_value_ok b Pb _ st5 _ f H5 S4 HFb ltac:(lia)) as (K5 & T5).
+    rewrite K3. cbn [first_err]. split; [exact K5|]. cbn [root_decl].
+    apply change_jump_pres in H8.
+    assert (T8 : step [] st2 st8).
+    { eapply step_nil_trans; [exact T3|]. eapply step_pres_l; [|eapply step_pres_r; [exact T5|]].
+      - split; reflexivity.
+      - eapply pres_trans; [|exact H8]. split; reflexivity. }
+    destruct T8 as [G8 L8]. subst st2. cbn [set_loops emit_opcode c_symbols c_loops] in G8, L8.
+    rewrite loops_snoc_length in L8.
+    destruct (rev (c_loops st8)) as [|ctx rest] eqn:ER; [discriminate|].
+    apply patch_breaks_pres in HC. destruct HC as (s0 & E0 & [Y0 Z0]). injection E0 as <-.
+    cbn [set_loops c_symbols c_loops] in Y0, Z0. split; [rewrite Y0; exact G8|].
+    rewrite Z0, rev_length. apply (f_equal (@length _)) in ER. rewrite rev_length in ER. cbn [length] in ER. lia.
+  - (* SLet *)
+    intros n e Pe st st' c f HC HS HF HZ. cbn [ssize] in HZ. cbn [fn_ok_stmt] in HF.
+    rewrite cs_let in HC. pose proof (grows_define (c_symbols st) n (sim_wf _ _ _ HS)) as G.
+    destruct (define (c_symbols st) n) as [t1 sy]. cbn [fst] in G. bok HC st1 H1. apply emit_sym_pres in HC.
+    assert (T : step [n] st (set_symbols st t1)) by (split; [exact G|reflexivity]).
+    pose proof (step_sim _ _ _ _ HS T) as S0. cbn [fold_left] in S0.
+    destruct (use_child e Pe _ st1 _ f H1 S0 HF ltac:(lia)) as (K1 & T1 & S1).
+    cbn [check_stmt1 stmt_decl]. split; [exact K1|].
+    eapply step_pres_r; [exact (step_trans [n] [] _ _ _ T T1)|exact HC].
+  - (* SReturn *)
+    intros e Pe st st' c f HC HS HF HZ. cbn [ssize] in HZ. cbn [fn_ok_stmt] in HF.
+    rewrite cs_return in HC. destruct (in_global_context (c_symbols st)) eqn:EG; [discriminate|].
+    bok HC st1 H1. injection HC as <-.
+    destruct (use_child e Pe st st1 c f H1 HS HF ltac:(lia)) as (K1 & T1 & S1).
+    cbn [check_stmt1 stmt_decl]. pose proof (sim_global _ _ _ HS) as G. destruct (s_global c).
+    + split; [exact K1|]. eapply step_pres_r; [exact T1|split; reflexivity].
+    + unfold in_global_context in EG. rewrite G in EG. discriminate.
+  - (* SExpr *)
+    intros e Pe st st' c f HC HS HF HZ. cbn [ssize] in HZ. cbn [fn_ok_stmt] in HF.
+    rewrite cs_expr in HC. bok HC st1 H1. injection HC as <-.
+    destruct (Pe true st st1 c f H1 HS HF ltac:(lia)) as (K1 & T1).
+    cbn [check_stmt1 stmt_decl]. split; [exact K1|]. eapply step_pres_r; [exact T1|split; reflexivity].
+  - (* SBlock *)
+    intros b Pb st st' c f HC HS HF HZ. rewrite ssize_block in HZ. cbn [fn_ok_stmt] in HF.
+    cbn [check_stmt1 stmt_decl].
+    destruct b as [|s0 b0].
+    + rewrite cs_block in HC. cbn [is_nil] in HC. injection HC as <-. cbn [bsize] in HZ. destruct f as [|f']; [lia|].
+      split; [reflexivity|]. eapply step_pres_r; [eapply step_refl; eauto|split; reflexivity].
+    + assert (HB : block_statement (s0 :: b0) st = Ok st') by exact HC.
+      apply (block_statement_ok _ Pb st st' (s_push c) f HB (sim_push _ _ HS) HF). lia.
+  - (* SBreak *)
+    intros st st' c f HC HS HF HZ. rewrite cs_break in HC. cbv zeta in HC.
+    cbn [emit_u16 emit_opcode c_loops] in HC. destruct (rev (c_loops st)) as [|ctx rest] eqn:ER; [discriminate|].
+    injection HC as <-. apply (f_equal (@length _)) in ER. rewrite rev_length in ER. cbn [length] in ER.
+    cbn [check_stmt1 stmt_decl]. rewrite (sim_loops _ _ _ HS), ER. split; [reflexivity|].
+    split; [cbn [set_loops emit_u16 emit_opcode c_symbols]; apply grows_refl, HS|].
+    cbn [set_loops c_loops]. rewrite app_length, rev_length. cbn [length]. lia.
+  - (* SContinue *)
+    intros st st' c f HC HS HF HZ. rewrite cs_continue in HC. cbv zeta in HC.
+    cbn [emit_opcode c_loops] in HC. destruct (rev (c_loops st)) as [|ctx rest] eqn:ER; [discriminate|].
+    bok HC pos Hp. injection HC as <-. apply (f_equal (@length _)) in ER. rewrite rev_length in ER. cbn [length] in ER.
+    cbn [check_stmt1 stmt_decl]. rewrite (sim_loops _ _ _ HS), ER. split; [reflexivity|].
+    eapply step_pres_r; [eapply step_refl; eauto|split; reflexivity].
+Qed.
+
+(** ** Theorem 2 *)
+Lemma sim_new : sim compiler_new (mkS [[]] None 0).
+Proof.
+  unfold sim. cbn [compiler_new c_symbols c_loops length]. split; cbn [s_local s_global s_loops].
+  - exact wf_symtab_new.
+  - intros x. cbn. split; [discriminate|tauto].
+  - reflexivity.
+  - reflexivity.
+Qed.
+
+Lemma all_Qc : forall b, Forall Qc b.
+Proof. intros b. apply Forall_forall. intros s _. apply (proj2 compile_scoped). Qed.
+
+(* from any state whose table shows the same names as the static context: an accepted statement list
+   passes the static pass, and the table has only grown by the names the list declares in its own scope *)
+Theorem compile_statements_scoped : forall b st st' c fuel,
+  compile_statements b st = Ok st' -> sim st c -> fn_ok_block b = true -> bsize b <= fuel ->
+  check_block fuel c b = None /\
+  (exists n, length (flat_map stmt_decl b) <= n /\
+             extends_by (flat_map stmt_decl b) n (c_symbols st) (c_symbols st')) /\
+  length (c_loops st') = length (c_loops st).
+Proof.
+  intros b st st' c fuel HC HS HF HZ. destruct (stmts_ok b (all_Qc b) st st' c fuel HC HS HF HZ) as (K & G & L).
+  split; [exact K|]. split; [now apply grows_extends_by|exact L].
+Qed.
+
+Lemma compile_ok_statements : forall b bc, compile b = Ok bc ->
+  exists st1, compile_statements b compiler_new = Ok st1.
+Proof.
+  intros b bc H. unfold compile, compile_ast in H.
+  destruct (compile_statements b compiler_new) as [st1| | |]; try discriminate. eauto.
+Qed.
+
+(* EVERY identifier of an accepted program resolves lexically, every stop/volgende is inside a loop of the
+   same function, every antwoord inside a function *)
+Theorem accepted_scoped : forall b bc fuel,
+  fn_ok_block b = true -> bsize b <= fuel -> compile b = Ok bc -> static_check fuel b = None.
+Proof.
+  intros b bc fuel HF HZ HC. destruct (compile_ok_statements _ _ HC) as [st1 H1].
+  exact (proj1 (compile_statements_scoped b _ st1 _ fuel H1 sim_new HF HZ)).
+Qed.
+
+Theorem undeclared_rejected : forall b fuel k,
+  fn_ok_block b = true -> bsize b <= fuel -> static_check fuel b = Some k ->
+  forall bc, compile b <> Ok bc.
+Proof.
+  intros b fuel k HF HZ HS bc HC. rewrite (accepted_scoped b bc fuel HF HZ HC) in HS. discriminate.
+Qed.
+
+(* "before it produces any output": eval does not run a program the compiler rejects *)
+Theorem eval_front_error : forall u orc src budget ast,
+  parse u (parse_float orc) src = Ok ast -> (forall bc, compile ast <> Ok bc) ->
+  eval u orc src budget = FrontError (compile ast).
+Proof.
+  intros u orc src budget ast HP HN. unfold eval. rewrite HP. unfold compile in *.
+  destruct (compile_ast ast compiler_new) as [st o]. cbn [snd] in *. destruct o as [bc| | |]; try reflexivity.
+  now destruct (HN bc).
+Qed.
+
+Corollary undeclared_never_runs : forall u orc src budget ast fuel k,
+  parse u (parse_float orc) src = Ok ast ->
+  fn_ok_block ast = true -> bsize ast <= fuel -> static_check fuel ast = Some k ->
+  eval u orc src budget = FrontError (compile ast) /\ forall bc, compile ast <> Ok bc.
+Proof.
+  intros u orc src budget ast fuel k HP HF HZ HS.
+  pose proof (undeclared_rejected ast fuel k HF HZ HS) as HN. split; [|exact HN]. now apply eval_front_error.
+Qed.
+
+(** ** The compiler is structural: it never runs out of fuel *)
+Definition noof {A} (o : outcome A) : Prop := o <> OutOfFuel.
+Lemma noof_bind : forall A B (x : outcome A) (k : A -> outcome B),
+  noof x -> (forall a, noof (k a)) -> noof (bind x k).
+Proof. intros A B x k Hx Hk. destruct x; cbn [bind]; [apply Hk|unfold noof; discriminate|unfold noof; discriminate|now destruct Hx]. Qed.
+Lemma noof_operand : forall b v, noof (operand b v).
+Proof. intros. unfold operand. destruct (v <? 2 ^ b)%Z; discriminate. Qed.
+Lemma noof_add_constant : forall k st, noof (snd (add_constant k st)).
+Proof. intros. unfold add_constant. destruct (const_position k (c_constants st)); apply noof_operand. Qed.
+Lemma noof_emit_const : forall k st, noof (emit_const k st).
+Proof.
+  intros. unfold emit_const. pose proof (noof_add_constant k st) as H. destruct (add_constant k st) as [st1 o].
+  apply noof_bind; [exact H|discriminate].
+Qed.
+Lemma noof_emit_sym : forall op s st, noof (emit_sym op s st).
+Proof. intros. unfold emit_sym. apply noof_bind; [apply noof_operand|discriminate]. Qed.
+Lemma noof_change_jump : forall i v st, noof (change_jump_operand_at i v st).
+Proof.
+  intros. unfold change_jump_operand_at. destruct (nth_error (c_code st) (Z.to_nat i)) as [b|]; [|discriminate].
+  destruct ((b =? byte_of_opcode OJump)%Z || (b =? byte_of_opcode OJumpIfFalse)%Z); discriminate.
+Qed.
+Lemma noof_patch_breaks : forall bs acc, noof acc -> noof (patch_breaks bs acc).
+Proof.
+  induction bs as [|ip bs IH]; intros acc H; [exact H|]. unfold patch_breaks in *. cbn [fold_left]. apply IH.
+  apply noof_bind; [exact H|]. intros s. apply noof_bind; [apply noof_operand|]. intros tg. apply noof_change_jump.
+Qed.
+
+Ltac noof_step :=
+  match goal with
+  | |- noof (bind _ _) => apply noof_bind; [|intros ?]
+  | |- noof (Ok _) => discriminate
+  | |- noof (Err _) => discriminate
+  | |- noof (Fault _) => discriminate
+  | |- noof (operand _ _) => apply noof_operand
+  | |- noof (emit_const _ _) => apply noof_emit_const
+  | |- noof (emit_sym _ _ _) => apply noof_emit_sym
+  | |- noof (change_jump_operand_at _ _ _) => apply noof_change_jump
+  | |- noof (patch_breaks _ _) => apply noof_patch_breaks
+  | H : forall st, noof (compile_expression ?e st) |- noof (compile_expression ?e _) => apply H
+  end.
+Ltac noof_tac := repeat noof_step.
+
+Lemma noof_stmts : forall b, Forall (fun s => forall st, noof (compile_statement s st)) b ->
+  forall st, noof (compile_statements b st).
+Proof. induction 1 as [|s b Hs _ IH]; intros st; cbn [compile_statements]; [discriminate|]. apply noof_bind; auto. Qed.
+Lemma noof_exprs : forall l, Forall (fun e => forall st, noof (compile_expression e st)) l ->
+  forall st, noof (compile_exprs l st).
+Proof. induction 1 as [|e l He _ IH]; intros st; cbn [compile_exprs]; [discriminate|]. apply noof_bind; auto. Qed.
+Lemma noof_block_statement : forall b, Forall (fun s => forall st, noof (compile_statement s st)) b ->
+  forall st, noof (block_statement b st).
+Proof.
+  intros b Hb st. unfold block_statement. destruct (is_nil b); [discriminate|].
+  apply noof_bind; [now apply noof_stmts|discriminate].
+Qed.
+Lemma noof_block_value : forall b, Forall (fun s => forall st, noof (compile_statement s st)) b ->
+  forall st, noof (block_value b st).
+Proof.
+  intros b Hb st. unfold block_value. apply noof_bind; [now apply noof_block_statement|]. intros st1.
+  destruct (is_nil b); [discriminate|]. destruct (last_instruction_is OPop st1); discriminate.
+Qed.
+
+Lemma compile_no_oof : (forall e st, noof (compile_expression e st)) /\ (forall s st, noof (compile_statement s st)).
+Proof.
+  apply cn_ast_ind.
+  - intros l o r Hl Hr st. rewrite ce_infix.
+    assert (G : forall st0, noof (generic_infix l o r st0)).
+    { intros st0. unfold generic_infix. noof_tac. destruct (assoc operator_eqb o compile_operator_table); discriminate. }
+    destruct (fused_candidate l r o) as [[[n v] o']|]; [|apply G].
+    destruct (compile_const_var_infix n v o' st) as [st1 [|]]; [discriminate|apply G].
+  - intros o r Hr st. rewrite ce_prefix. noof_tac. destruct o; discriminate.
+  - intros z st. rewrite ce_int. noof_tac.
+  - intros f st. rewrite ce_float. noof_tac.
+  - intros b st. rewrite ce_bool. noof_tac.
+  - intros c t alt Hc Ht Ha st. rewrite ce_if. cbv zeta. noof_tac.
+    + now apply noof_block_value.
+    + destruct alt; [now apply noof_block_value|discriminate].
+  - intros x st. rewrite ce_ident. destruct (resolve (c_symbols st) x); noof_tac.
+  - intros n ps b Hb st. rewrite ce_function.
+    destruct (if is_nil n then _ else _) as [st1 sym]. cbv zeta. noof_tac.
+    + now apply noof_block_statement.
+    + match goal with |- context [leave_context ?t] => destruct (leave_context t) as [t8 nl] end. noof_tac.
+      match goal with |- context [add_constant ?k ?s] =>
+        pose proof (noof_add_constant k s) as H; destruct (add_constant k s) as [st9 o] end.
+      apply noof_bind; [exact H|]. intros idx. destruct sym; noof_tac.
+  - intros f args Hf Ha st. rewrite ce_call. cbv zeta. noof_tac; [now apply noof_exprs|].
+    destruct (match f with EIdent name => assoc_text name builtin_names | _ => None end); noof_tac.
+  - intros l r Hl Hli Hr st. rewrite ce_assign. destruct l; try discriminate.
+    + destruct (resolve (c_symbols st) s); noof_tac.
+    + destruct Hli as [H1 H2]. noof_tac.
+  - intros s st. rewrite ce_string. noof_tac.
+  - intros vs Hvs st. rewrite ce_array. cbv zeta. noof_tac. now apply noof_exprs.
+  - intros l i Hl Hi st. rewrite ce_index. noof_tac.
+  - intros c b Hc Hb st. rewrite ce_while. cbv zeta. noof_tac; [now apply noof_block_value|].
+    match goal with |- context [rev ?l] => destruct (rev l) end; noof_tac.
+  - intros n e He st. rewrite cs_let. destruct (define (c_symbols st) n) as [t sy]. noof_tac.
+  - intros e He st. rewrite cs_return. destruct (in_global_context (c_symbols st)); noof_tac.
+  - intros e He st. rewrite cs_expr. noof_tac.
+  - intros b Hb st. rewrite cs_block. destruct (is_nil b); [discriminate|]. apply noof_bind; [now apply noof_stmts|discriminate].
+  - intros st. rewrite cs_break. cbv zeta. destruct (rev _); discriminate.
+  - intros st. rewrite cs_continue. cbv zeta. destruct (rev _); noof_tac.
+Qed.
+
+Theorem compile_never_out_of_fuel : forall b, compile b <> OutOfFuel.
+Proof.
+  intros b. unfold compile, compile_ast.
+  assert (H : noof (compile_statements b compiler_new)).
+  { apply noof_stmts. apply Forall_forall. intros s _. apply (proj2 compile_no_oof). }
+  destruct (compile_statements b compiler_new); cbn [snd]; try discriminate. now destruct H.
+Qed.
+
+(* with the compiler's internal assertions excluded (they are the subject of the totality theorem), the
+   rejection is a documented error *)
+Theorem undeclared_rejected_err : forall b fuel k,
+  fn_ok_block b = true -> bsize b <= fuel -> static_check fuel b = Some k ->
+  (forall f, compile b <> Fault f) -> exists k', compile b = Err k'.
+Proof.
+  intros b fuel k HF HZ HS HN. pose proof (undeclared_rejected b fuel k HF HZ HS) as H1.
+  pose proof (compile_never_out_of_fuel b) as H2. destruct (compile b) as [bc|k'|f|].
+  - now destruct (H1 bc).
+  - eauto.
+  - now destruct (HN f).
+  - now destruct H2.
+Qed.
+
+(** ** The converse for error kinds: an error of the compiler is the error of the static pass, unless it
+    is one of the compiler's own (operand "te groot": SyntaxError; operator that is no prefix: TypeError) *)
+Definition err_ok (k : errkind) (r : option errkind) : Prop :=
+  r = Some k \/ k = ESyntaxError \/ k = ETypeError.
+
+Lemma bind_err : forall A B (e : outcome A) (f : A -> outcome B) k,
+  bind e f = Err k -> e = Err k \/ exists a, e = Ok a /\ f a = Err k.
+Proof. intros A B e f k H. destruct e; try discriminate; [right; eauto|left; cbn [bind] in H; congruence]. Qed.
+Ltac berr H a Ha := apply bind_err in H; destruct H as [H | (a & Ha & H)].
+
+Lemma err_first : forall k a b, err_ok k a -> err_ok k (first_err a b).
+Proof. intros k a b [->|H]; [left; reflexivity|right; exact H]. Qed.
+Lemma err_syntax : forall r, err_ok ESyntaxError r.
+Proof. intros. right. left. reflexivity. Qed.
+
+Lemma operand_err : forall b v k, operand b v = Err k -> k = ESyntaxError.
+Proof. intros b v k H. unfold operand in H. destruct (v <? 2 ^ b)%Z; congruence. Qed.
+Lemma add_constant_err : forall c st k, snd (add_constant c st) = Err k -> k = ESyntaxError.
+Proof.
+  intros c st k H. unfold add_constant in H. destruct (const_position c (c_constants st)); eapply operand_err; exact H.
+Qed.
+Lemma emit_const_err : forall c st k, emit_const c st = Err k -> k = ESyntaxError.
+Proof.
+  intros c st k H. unfold emit_const in H. pose proof (add_constant_err c st k) as A.
+  destruct (add_constant c st) as [st1 o]. cbn [snd] in A. berr H idx Hi; [auto|discriminate].
+Qed.
+Lemma emit_sym_err : forall op s st k, emit_sym op s st = Err k -> k = ESyntaxError.
+Proof. intros op s st k H. unfold emit_sym in H. berr H idx Hi; [eapply operand_err; eauto|discriminate]. Qed.
+Lemma change_jump_err : forall i v st k, change_jump_operand_at i v st = Err k -> False.
+Proof.
+  intros i v st k H. unfold change_jump_operand_at in H.
+  destruct (nth_error (c_code st) (Z.to_nat i)) as [b|]; [|discriminate].
+  destruct ((b =? byte_of_opcode OJump)%Z || (b =? byte_of_opcode OJumpIfFalse)%Z); discriminate.
+Qed.
+Lemma patch_breaks_err : forall bs acc k, patch_breaks bs acc = Err k -> acc = Err k \/ k = ESyntaxError.
+Proof.
+  induction bs as [|ip bs IH]; intros acc k H; [left; exact H|]. unfold patch_breaks in *. cbn [fold_left] in H.
+  apply IH in H. destruct H as [H|H]; [|right; exact H]. berr H s Hs; [left; exact H|]. right.
+  berr H tg Ht; [eapply operand_err; eauto|]. now apply change_jump_err in H.
+Qed.
+
+Lemma simt_invisible : forall t nl c x, simt t nl c -> resolve t x = None -> s_visible c x = false.
+Proof.
+  intros t nl c x [W L G N] R. apply (resolve_None _ _ W) in R. destruct R as [R1 R2].
+  unfold s_visible. apply orb_false_iff. split.
+  - destruct (in_senv x (s_local c)) eqn:E; [|reflexivity]. apply L in E. contradiction.
+  - destruct (s_global c) as [g|]; [|reflexivity]. destruct G as [_ G].
+    destruct (in_senv x g) eqn:E; [|reflexivity]. apply G in E. contradiction.
+Qed.
+
+Definition Pr (e : expr) : Prop := forall flag st c fuel k,
+  compile_expression e st = Err k -> sim st c -> fn_ok flag e = true -> esize e <= fuel ->
+  err_ok k (check_expr fuel c e).
+Definition Qr (s : stmt) : Prop := forall st c f k,
+  compile_statement s st = Err k -> sim st c -> fn_ok_stmt s = true -> ssize s <= f ->
+  err_ok k (check_stmt1 f c s).
+
+Lemma all_Pc : forall e, Pc e. Proof. exact (proj1 compile_scoped). Qed.
+
+Lemma exprs_err : forall l, Forall Pr l -> forall st c f k,
+  compile_exprs l st = Err k -> sim st c -> forallb (fn_ok false) l = true -> essize l <= f ->
+  err_ok k (check_exprs f c l).
+Proof.
+  induction 1 as [|e l He _ IH]; intros st c f k HC HS HF HZ; [discriminate|].
+  cbn [compile_exprs] in HC. cbn [forallb] in HF. apply andb_true_iff in HF. destruct HF as [HF1 HF2].
+  cbn [essize] in HZ. rewrite check_exprs_cons. berr HC st1 H1.
+  - apply err_first. eapply He; eauto. lia.
+  - destruct (use_child e (all_Pc e) st st1 c f H1 HS HF1 ltac:(lia)) as (K1 & T1 & S1).
+    rewrite K1. cbn [first_err]. eapply IH; eauto. lia.
+Qed.
+
+Lemma stmts_err : forall b, Forall Qr b -> forall st c fuel k,
+  compile_statements b st = Err k -> sim st c -> forallb fn_ok_stmt b = true -> bsize b <= fuel ->
+  err_ok k (check_block fuel c b).
+Proof.
+  induction 1 as [|s b Hs _ IH]; intros st c fuel k HC HS HF HZ; [discriminate|].
+  cbn [compile_statements] in HC. cbn [forallb] in HF. apply andb_true_iff in HF. destruct HF as [HF1 HF2].
+  cbn [bsize] in HZ. destruct fuel as [|f]; [lia|]. rewrite ck_block_cons. berr HC st1 H1.
+  - apply err_first. eapply Hs; eauto. lia.
+  - destruct (proj2 compile_scoped s st st1 c f H1 HS HF1 ltac:(lia)) as (K1 & T1).
+    pose proof (step_sim _ _ _ _ HS T1) as S1. rewrite K1. cbn [first_err]. eapply IH; eauto. lia.
+Qed.
+
+Lemma block_statement_err : forall b, Forall Qr b -> forall st c fuel k,
+  block_statement b st = Err k -> sim st c -> forallb fn_ok_stmt b = true -> bsize b <= fuel ->
+  err_ok k (check_block fuel c b).
+Proof.
+  intros b Hb st c fuel k HC HS HF HZ. unfold block_statement in HC. destruct (is_nil b); [discriminate|].
+  berr HC st1 H1; [|discriminate]. eapply stmts_err; eauto. now apply sim_enter.
+Qed.
+
+Lemma block_value_err : forall b, Forall Qr b -> forall st c fuel k,
+  block_value b st = Err k -> sim st c -> forallb fn_ok_stmt b = true -> bsize b <= fuel ->
+  err_ok k (check_block fuel c b).
+Proof.
+  intros b Hb st c fuel k HC HS HF HZ. unfold block_value in HC. berr HC st1 H1.
+  - eapply block_statement_err; eauto.
+  - destruct (is_nil b); [discriminate|]. destruct (last_instruction_is OPop st1); discriminate.
+Qed.
+
+Lemma generic_infix_err : forall l o r, Pr l -> Pr r -> forall st c f k,
+  generic_infix l o r st = Err k -> sim st c -> fn_ok false l = true -> fn_ok false r = true ->
+  esize l + esize r <= f ->
+  err_ok k (first_err (check_expr f c l) (fun _ => check_expr f c r)).
+Proof.
+  intros l o r Pl Pr0 st c f k HC HS HFl HFr HZ. unfold generic_infix in HC.
+  pose proof (esize_pos l). pose proof (esize_pos r). berr HC st1 H1.
+  - apply err_first. eapply Pl; eauto. lia.
+  - destruct (use_child l (all_Pc l) st st1 c f H1 HS HFl ltac:(lia)) as (K1 & T1 & S1).
+    rewrite K1. cbn [first_err]. berr HC st2 H2.
+    + eapply Pr0; eauto. lia.
+    + destruct (assoc operator_eqb o compile_operator_table); discriminate.
+Qed.
+
+Lemma all_Pc_list : forall l, Forall Pc l.
+Proof. intros l. apply Forall_forall. intros e _. apply all_Pc. Qed.
+
+Lemma compile_errors : (forall e, Pr e) /\ (forall s, Qr s).
+Proof.
+  apply cn_ast_ind; unfold Pr, Qr.
+  - (* EInfix *)
+    intros l o r Pl Pr0 flag st c fuel k HC HS HF HZ. cbn [esize] in HZ. destruct fuel as [|f]; [lia|].
+    cbn [fn_ok] in HF. apply andb_true_iff in HF. destruct HF as [HFl HFr].
+    rewrite ce_infix in HC. rewrite ck_infix.
+    destruct (fused_candidate l r o) as [[[n v] o']|] eqn:EF.
+    + pose proof (const_var_infix_pres n v o' st) as P.
+      destruct (compile_const_var_infix n v o' st) as [st1 d]. cbn [fst] in P. destruct d; [discriminate|].
+      eapply generic_infix_err; eauto; [eapply pres_sim; eauto|lia].
+    + eapply generic_infix_err; eauto. lia.
+  - (* EPrefix *)
+    intros o r Pr0 flag st c fuel k HC HS HF HZ. cbn [esize] in HZ. destruct fuel as [|f]; [lia|].
+    cbn [fn_ok] in HF. rewrite ce_prefix in HC. rewrite ck_prefix. berr HC st1 H1.
+    + eapply Pr0; eauto. lia.
+    + right. right. destruct o; congruence.
+  - intros z flag st c fuel k HC _ _ _. rewrite ce_int in HC. apply emit_const_err in HC. subst. apply err_syntax.
+  - intros x flag st c fuel k HC _ _ _. rewrite ce_float in HC. apply emit_const_err in HC. subst. apply err_syntax.
+  - intros b flag st c fuel k HC _ _ _. discriminate.
+  - (* EIf *)
+    intros cnd t alt Pcnd Pt Palt flag st c fuel k HC HS HF HZ. rewrite esize_if in HZ. destruct fuel as [|f]; [lia|].
+    cbn [fn_ok] in HF. apply andb_true_iff in HF. destruct HF as [HF HFa]. apply andb_true_iff in HF. destruct HF as [HFc HFt].
+    rewrite ce_if in HC. cbv zeta in HC. rewrite ck_if. berr HC st1 H1.
+    { apply err_first. eapply Pcnd; eauto. lia. }
+    destruct (use_child cnd (all_Pc cnd) st st1 c f H1 HS HFc ltac:(lia)) as (K1 & T1 & S1).
+    rewrite K1. cbn [first_err].
+    assert (S2 : sim (emit_u16 JUMP_PLACEHOLDER (emit_opcode OJumpIfFalse st1)) (s_push c)).
+    { apply sim_push. eapply pres_sim; [exact S1|split; reflexivity]. }
+    berr HC st3 H3.
+    { apply err_first. eapply block_value_err; eauto. lia. }
+    destruct (block_value_ok t (all_Qc t) _ st3 _ f H3 S2 HFt ltac:(lia)) as (K3 & T3).
+    pose proof (step_sim [] _ _ _ S2 T3) as S3. cbn [fold_left] in S3. rewrite K3. cbn [first_err].
+    berr HC target Ht. { apply operand_err in HC. subst. apply err_syntax. }
+    berr HC st5 H5. { now apply change_jump_err in HC. }
+    apply change_jump_pres in H5.
+    assert (S5 : sim st5 (s_push c)).
+    { eapply pres_sim; [|exact H5]. eapply pres_sim; [exact S3|split; reflexivity]. }
+    berr HC st6 H6.
+    { destruct alt as [b|]; [|discriminate]. cbn [on_opt] in Palt. eapply block_value_err; eauto. lia. }
+    berr HC target2 Ht2. { apply operand_err in HC. subst. apply err_syntax. }
+    now apply change_jump_err in HC.
+  - (* EIdent *)
+    intros x flag st c fuel k HC HS HF HZ. cbn [esize] in HZ. destruct fuel as [|f]; [lia|].
+    rewrite ce_ident in HC. rewrite ck_ident. destruct (resolve (c_symbols st) x) as [s|] eqn:R.
+    + apply emit_sym_err in HC. subst. apply err_syntax.
+    + rewrite (simt_invisible _ _ _ _ HS R). left. congruence.
+  - (* EFunction *)
+    intros n ps b Pb flag st c fuel k HC HS HF HZ. rewrite esize_function in HZ. destruct fuel as [|f]; [lia|].
+    cbn [fn_ok] in HF. apply andb_true_iff in HF. destruct HF as [_ HFb].
+    rewrite ce_function in HC. rewrite ck_function. cbv zeta.
+    set (c1 := match n with [] => c | _ :: _ => s_declare c n end).
+    assert (D : exists st1 sym, (if is_nil n then (st, None)
+                  else let '(t, s) := define (c_symbols st) n in (set_symbols st t, Some s)) = (st1, sym) /\
+                sim st1 c1).
+    { destruct n as [|x n']; cbn [is_nil]; subst c1.
+      - exists st, None. split; [reflexivity|exact HS].
+      - pose proof (grows_define (c_symbols st) (x :: n') (sim_wf _ _ _ HS)) as G.
+        destruct (define (c_symbols st) (x :: n')) as [t1 sy]. cbn [fst] in G. exists (set_symbols st t1), (Some sy).
+        assert (T : step [x :: n'] st (set_symbols st t1)) by (split; [exact G|reflexivity]).
+        split; [reflexivity|exact (step_sim _ _ _ _ HS T)]. }
+    destruct D as (st1 & sym & ED & S1). rewrite ED in HC. clear ED. cbv zeta in HC.
+    set (t3 := fold_left (fun t p => fst (define t p)) ps (new_context (c_symbols st1))) in *.
+    assert (S3 : sim (set_loops (set_symbols (emit_u16 JUMP_PLACEHOLDER (emit_opcode OJump st1)) t3) [])
+                     (mkS [rev ps] (Some (match s_global c1 with Some g => g | None => s_local c1 end)) 0)).
+    { unfold sim. cbn [set_loops set_symbols c_symbols c_loops length]. subst t3. eapply simt_function. exact S1. }
+    berr HC st4 H4. { eapply block_statement_err; eauto. lia. }
+    berr HC target Ht. { apply operand_err in HC. subst. apply err_syntax. }
+    berr HC st7 H7. { now apply change_jump_err in HC. }
+    destruct (leave_context (c_symbols st7)) as [t8 nl].
+    berr HC ip Hip. { apply operand_err in HC. subst. apply err_syntax. }
+    berr HC nlz Hnl. { apply operand_err in HC. subst. apply err_syntax. }
+    pose proof (add_constant_err (KFun ip nlz) (set_symbols st7 t8) k) as A.
+    destruct (add_constant (KFun ip nlz) (set_symbols st7 t8)) as [st9 o]. cbn [snd] in A.
+    berr HC idx Hidx. { rewrite (A HC). apply err_syntax. }
+    destruct sym as [sy|]; [|discriminate]. berr HC st11 H11; [|discriminate].
+    apply emit_sym_err in HC. subst. apply err_syntax.
+  - (* ECall *)
+    intros fn args Pfn Pargs flag st c fuel k HC HS HF HZ. rewrite esize_call in HZ. destruct fuel as [|f]; [lia|].
+    cbn [fn_ok] in HF. apply andb_true_iff in HF. destruct HF as [HFa HFf].
+    rewrite ce_call in HC. cbv zeta in HC. rewrite ck_call. berr HC st1 H1.
+    { apply err_first. eapply exprs_err; eauto. lia. }
+    destruct (exprs_ok args (all_Pc_list args) st st1 c f H1 HS HFa ltac:(lia)) as (K1 & T1 & S1).
+    rewrite K1. cbn [first_err].
+    assert (G : (do st2 <- compile_expression fn st1; do n <- operand 8 (zlength args); Ok (emit_u8 n (emit_opcode OCall st2))) = Err k ->
+                err_ok k (check_expr f c fn)).
+    { intros HG. berr HG st2 H2; [eapply Pfn; eauto; lia|].
+      berr HG nn Hn; [|discriminate]. apply operand_err in HG. subst. apply err_syntax. }
+    destruct fn; try (apply G; exact HC).
+    unfold is_builtin_name. destruct (assoc_text s builtin_names) as [bi|]; [|apply G; exact HC].
+    berr HC nn Hn; [|discriminate]. apply operand_err in HC. subst. apply err_syntax.
+  - (* EAssign *)
+    intros l r Pl Pli Pr0 flag st c fuel k HC HS HF HZ. cbn [esize] in HZ. destruct fuel as [|f]; [lia|].
+    cbn [fn_ok] in HF. apply andb_true_iff in HF. destruct HF as [HFl HFr].
+    rewrite ce_assign in HC.
+    destruct l; try (injection HC as <-; left; reflexivity).
+    + rewrite ck_assign_ident. destruct (resolve (c_symbols st) s) as [sy|] eqn:R.
+      * rewrite (simt_visible _ _ _ _ _ HS R). berr HC st1 H1; [eapply Pr0; eauto; lia|].
+        berr HC st2 H2; [apply emit_sym_err in HC; subst; apply err_syntax|].
+        apply emit_sym_err in HC. subst. apply err_syntax.
+      * rewrite (simt_invisible _ _ _ _ HS R). left. congruence.
+    + destruct Pli as [Pl1 Pl2]. cbn [fn_ok] in HFl. apply andb_true_iff in HFl. destruct HFl as [HF1 HF2].
+      cbn [esize] in HZ. rewrite ck_assign_index. berr HC st1 H1.
+      { apply err_first. eapply Pl1; eauto. lia. }
+      destruct (use_child l1 (all_Pc l1) st st1 c f H1 HS HF1 ltac:(lia)) as (K1 & T1 & S1).
+      rewrite K1. cbn [first_err]. berr HC st2 H2.
+      { apply err_first. eapply Pl2; eauto. lia. }
+      destruct (use_child l2 (all_Pc l2) st1 st2 c f H2 S1 HF2 ltac:(lia)) as (K2 & T2 & S2).
+      rewrite K2. cbn [first_err]. berr HC st3 H3; [|discriminate]. eapply Pr0; eauto. lia.
+  - intros x flag st c fuel k HC _ _ _. rewrite ce_string in HC. apply emit_const_err in HC. subst. apply err_syntax.
+  - (* EArray *)
+    intros vs Pvs flag st c fuel k HC HS HF HZ. rewrite esize_array in HZ. destruct fuel as [|f]; [lia|].
+    cbn [fn_ok] in HF. rewrite ce_array in HC. cbv zeta in HC. rewrite ck_array. berr HC st1 H1.
+    + eapply exprs_err; eauto. lia.
+    + berr HC nn Hn; [|discriminate]. apply operand_err in HC. subst. apply err_syntax.
+  - (* EIndex *)
+    intros l i Pl Pi flag st c fuel k HC HS HF HZ. cbn [esize] in HZ. destruct fuel as [|f]; [lia|].
+    cbn [fn_ok] in HF. apply andb_true_iff in HF. destruct HF as [HFl HFi].
+    rewrite ce_index in HC. rewrite ck_index. berr HC st1 H1.
+    { apply err_first. eapply Pl; eauto. lia. }
+    destruct (use_child l (all_Pc l) st st1 c f H1 HS HFl ltac:(lia)) as (K1 & T1 & S1).
+    rewrite K1. cbn [first_err]. berr HC st2 H2; [|discriminate]. eapply Pi; eauto. lia.
+  - (* EWhile *)
+    intros cnd b Pcnd Pb flag st c fuel k HC HS HF HZ. rewrite esize_while in HZ. destruct fuel as [|f]; [lia|].
+    cbn [fn_ok] in HF. apply andb_true_iff in HF. destruct HF as [HFc HFb].
+    rewrite ce_while in HC. cbv zeta in HC. rewrite ck_while. cbv zeta.
+    set (c' := mkS (s_local c) (s_global c) (S (s_loops c))).
+    set (st2 := set_loops (emit_opcode ONull st) _) in HC.
+    assert (S2 : sim st2 c').
+    { destruct HS as [W L G N]. subst st2 c'. unfold sim. cbn [set_loops emit_opcode c_symbols c_loops].
+      rewrite loops_snoc_length. split; cbn [s_local s_global s_loops]; auto. }
+    berr HC st3 H3.
+    { apply err_first. eapply Pcnd; eauto. lia. }
+    destruct (use_child cnd (all_Pc cnd) st2 st3 c' f H3 S2 HFc ltac:(lia)) as (K3 & T3 & S3).
+    rewrite K3. cbn [first_err].
+    assert (S4 : sim (emit_opcode OPop (emit_u16 JUMP_PLACEHOLDER (emit_opcode OJumpIfFalse st3))) (s_push c')).
+    { apply sim_push. eapply pres_sim; [exact S3|split; reflexivity]. }
+    berr HC st5 H5. { eapply block_value_err; eauto. lia. }
+    berr HC back Hb. { apply operand_err in HC. subst. apply err_syntax. }
+    berr HC target Ht. { apply operand_err in HC. subst. apply err_syntax. }
+    berr HC st8 H8. { now apply change_jump_err in HC. }
+    destruct (rev (c_loops st8)); [discriminate|]. apply patch_breaks_err in HC. destruct HC as [HC|HC]; [discriminate|].
+    subst. apply err_syntax.
+  - (* SLet *)
+    intros n e Pe st c f k HC HS HF HZ. cbn [ssize] in HZ. cbn [fn_ok_stmt] in HF.
+    rewrite cs_let in HC. pose proof (grows_define (c_symbols st) n (sim_wf _ _ _ HS)) as G.
+    destruct (define (c_symbols st) n) as [t1 sy]. cbn [fst] in G.
+    assert (T : step [n] st (set_symbols st t1)) by (split; [exact G|reflexivity]).
+    pose proof (step_sim _ _ _ _ HS T) as S0. cbn [fold_left] in S0. cbn [check_stmt1].
+    berr HC st1 H1; [eapply Pe; eauto; lia|]. apply emit_sym_err in HC. subst. apply err_syntax.
+  - (* SReturn *)
+    intros e Pe st c f k HC HS HF HZ. cbn [ssize] in HZ. cbn [fn_ok_stmt] in HF.
+    rewrite cs_return in HC. cbn [check_stmt1]. pose proof (sim_global _ _ _ HS) as G.
+    destruct (in_global_context (c_symbols st)) eqn:EG.
+    + injection HC as <-. apply err_syntax.
+    + destruct (s_global c); [|unfold in_global_context in EG; rewrite G in EG; discriminate].
+      berr HC st1 H1; [|discriminate]. eapply Pe; eauto. lia.
+  - (* SExpr *)
+    intros e Pe st c f k HC HS HF HZ. cbn [ssize] in HZ. cbn [fn_ok_stmt] in HF.
+    rewrite cs_expr in HC. cbn [check_stmt1]. berr HC st1 H1; [|discriminate]. eapply Pe; eauto. lia.
+  - (* SBlock *)
+    intros b Pb st c f k HC HS HF HZ. rewrite ssize_block in HZ. cbn [fn_ok_stmt] in HF. cbn [check_stmt1].
+    destruct b as [|s0 b0]; [discriminate|].
+    assert (HB : block_statement (s0 :: b0) st = Err k) by exact HC.
+    eapply block_statement_err; eauto; [now apply sim_push|lia].
+  - (* SBreak *)
+    intros st c f k HC HS HF HZ. rewrite cs_break in HC. cbv zeta in HC.
+    destruct (rev _); [|discriminate]. injection HC as <-. apply err_syntax.
+  - (* SContinue *)
+    intros st c f k HC HS HF HZ. rewrite cs_continue in HC. cbv zeta in HC.
+    destruct (rev _); [injection HC as <-; apply err_syntax|].
+    berr HC pos Hp; [|discriminate]. apply operand_err in HC. subst. apply err_syntax.
+Qed.
+
+(* an error of the compiler is the error of the static pass, unless it is one of the compiler's own:
+   SyntaxError (an operand "te groot") or TypeError (an operator that is no prefix operator) *)
+Theorem compile_error_scoped : forall b fuel k,
+  fn_ok_block b = true -> bsize b <= fuel -> compile b = Err k ->
+  static_check fuel b = Some k \/ k = ESyntaxError \/ k = ETypeError.
+Proof.
+  intros b fuel k HF HZ HC. unfold compile, compile_ast in HC.
+  destruct (compile_statements b compiler_new) as [st1|k'|f|] eqn:E; try discriminate.
+  cbn [snd] in HC. injection HC as ->.
+  apply (stmts_err b) with (st := compiler_new); auto; [|exact sim_new].
+  apply Forall_forall. intros s _. apply (proj2 compile_errors).
+Qed.
+
+(* reference errors correspond exactly: the compiler reports one only where the static pass does *)
+Corollary reference_error_exact : forall b fuel,
+  fn_ok_block b = true -> bsize b <= fuel -> compile b = Err EReferenceError ->
+  static_check fuel b = Some EReferenceError.
+Proof.
+  intros b fuel HF HZ HC. destruct (compile_error_scoped b fuel _ HF HZ HC) as [H|[H|H]]; [exact H|discriminate|discriminate].
+Qed.
+
+(* a program with an undeclared name: whatever documented error the compiler gives, it is the reference
+   error or one of the compiler's own two *)
+Corollary undeclared_error_kind : forall b fuel k,
+  fn_ok_block b = true -> bsize b <= fuel -> static_check fuel b = Some EReferenceError ->
+  compile b = Err k -> k = EReferenceError \/ k = ESyntaxError \/ k = ETypeError.
+Proof.
+  intros b fuel k HF HZ HS HC. destruct (compile_error_scoped b fuel k HF HZ HC) as [H|H]; [|right; exact H].
+  left. congruence.
+Qed.
+
+(** ** Renaming ONE variable to a FRESH name (the literal reading of the property) *)
+Fixpoint names_expr (e : expr) : list text :=
+  match e with
+  | EInfix l _ r => names_expr l ++ names_expr r
+  | EPrefix _ r => names_expr r
+  | EInt _ | EFloat _ | EBool _ | EString _ => []
+  | EIf c t alt => names_expr c ++ flat_map names_stmt t ++
+                   match alt with Some b => flat_map names_stmt b | None => [] end
+  | EIdent x => [x]
+  | EFunction n ps b => n :: ps ++ flat_map names_stmt b
+  | ECall f args => names_expr f ++ flat_map names_expr args
+  | EAssign l r => names_expr l ++ names_expr r
+  | EArray vs => flat_map names_expr vs
+  | EIndex l i => names_expr l ++ names_expr i
+  | EWhile c b => names_expr c ++ flat_map names_stmt b
+  end
+with names_stmt (s : stmt) : list text :=
+  match s with
+  | SLet n e => n :: names_expr e
+  | SReturn e | SExpr e => names_expr e
+  | SBlock b => flat_map names_stmt b
+  | SBreak | SContinue => []
+  end.
+Definition names_block (b : block) : list text := flat_map names_stmt b.
+
+Section RenameExt.
+  Variables r1 r2 : text -> text.
+
+  Lemma map_ext_names : forall A (nm : A -> list text) (f g : A -> A) l,
+    Forall (fun a => (forall x, In x (nm a) -> r1 x = r2 x) -> f a = g a) l ->
+    (forall x, In x (flat_map nm l) -> r1 x = r2 x) -> map f l = map g l.
+  Proof.
+    intros A nm f g l H. induction H as [|a l Ha _ IH]; intros Hx; [reflexivity|]. cbn [map flat_map] in *.
+    f_equal; [apply Ha|apply IH]; intros x Hi; apply Hx; apply in_or_app; auto.
+  Qed.
+
+  Lemma rename_ext_all :
+    (forall e, (forall x, In x (names_expr e) -> r1 x = r2 x) -> rename_expr r1 e = rename_expr r2 e) /\
+    (forall s, (forall x, In x (names_stmt s) -> r1 x = r2 x) -> rename_stmt r1 s = rename_stmt r2 s).
+  Proof.
+    apply cn_ast_ind.
+    - intros l o r Hl Hr Hx. cbn [rename_expr names_expr] in *. f_equal; [apply Hl|apply Hr]; intros x Hi; apply Hx, in_or_app; auto.
+    - intros o r Hr Hx. cbn [rename_expr names_expr] in *. f_equal. auto.
+    - reflexivity.
+    - reflexivity.
+    - reflexivity.
+    - intros c t alt Hc Ht Ha Hx. cbn [rename_expr names_expr] in *. f_equal.
+      + apply Hc. intros x Hi. apply Hx, in_or_app; auto.
+      + apply (map_ext_names _ names_stmt _ _ t Ht). intros x Hi. apply Hx, in_or_app. right. apply in_or_app; auto.
+      + destruct alt as [b|]; [|reflexivity]. cbn [option_map on_opt] in *. f_equal.
+        apply (map_ext_names _ names_stmt _ _ b Ha). intros x Hi. apply Hx, in_or_app. right. apply in_or_app; auto.
+    - intros x Hx. cbn [rename_expr names_expr] in *. f_equal. apply Hx. now left.
+    - intros n ps b Hb Hx. cbn [rename_expr names_expr] in *. f_equal.
+      + unfold rename_fname. destruct (is_nil n); [reflexivity|]. apply Hx. now left.
+      + apply map_ext_in. intros p Hp. apply Hx. right. apply in_or_app; auto.
+      + apply (map_ext_names _ names_stmt _ _ b Hb). intros x Hi. apply Hx. right. apply in_or_app; auto.
+    - intros f args Hf Ha Hx. cbn [rename_expr names_expr] in *. f_equal.
+      + assert (E : rename_expr r1 f = rename_expr r2 f) by (apply Hf; intros x Hi; apply Hx, in_or_app; auto).
+        destruct f; try exact E. destruct (is_builtin_name s); [reflexivity|exact E].
+      + apply (map_ext_names _ names_expr _ _ args Ha). intros x Hi. apply Hx, in_or_app; auto.
+    - intros l r Hl _ Hr Hx. cbn [rename_expr names_expr] in *. f_equal; [apply Hl|apply Hr]; intros x Hi; apply Hx, in_or_app; auto.
+    - reflexivity.
+    - intros vs Hvs Hx. cbn [rename_expr names_expr] in *. f_equal. apply (map_ext_names _ names_expr _ _ vs Hvs Hx).
+    - intros l i Hl Hi Hx. cbn [rename_expr names_expr] in *. f_equal; [apply Hl|apply Hi]; intros x Hin; apply Hx, in_or_app; auto.
+    - intros c b Hc Hb Hx. cbn [rename_expr names_expr] in *. f_equal.
+      + apply Hc. intros x Hi. apply Hx, in_or_app; auto.
+      + apply (map_ext_names _ names_stmt _ _ b Hb). intros x Hi. apply Hx, in_or_app; auto.
+    - intros n e He Hx. cbn [rename_stmt names_stmt] in *. f_equal; [apply Hx; now left|apply He; intros x Hi; apply Hx; now right].
+    - intros e He Hx. cbn [rename_stmt names_stmt] in *. f_equal. auto.
+    - intros e He Hx. cbn [rename_stmt names_stmt] in *. f_equal. auto.
+    - intros b Hb Hx. cbn [rename_stmt names_stmt] in *. f_equal. apply (map_ext_names _ names_stmt _ _ b Hb Hx).
+    - reflexivity.
+    - reflexivity.
+  Qed.
+
+  Theorem rename_block_ext : forall b,
+    (forall x, In x (names_block b) -> r1 x = r2 x) -> rename_block r1 b = rename_block r2 b.
+  Proof.
+    intros b Hx. unfold rename_block. apply (map_ext_names _ names_stmt _ _ b); [|exact Hx].
+    apply Forall_forall. intros s _. apply (proj2 rename_ext_all).
+  Qed.
+End RenameExt.
+
+(* replace every occurrence of the name a by b *)
+Definition subst_name (a b x : text) : text := if text_eqb x a then b else x.
+
+(* renaming the variable a to a name b that does not occur in the program: identical bytecode *)
+Theorem compile_rename_fresh : forall a b p,
+  a <> [] -> b <> [] -> is_builtin_name a = false -> is_builtin_name b = false ->
+  ~ In b (names_block p) ->
+  compile (rename_block (subst_name a b) p) = compile p.
+Proof.
+  intros a b p Ha Hb Ba Bb Hf. rewrite <- (compile_swap a b p Ha Hb Ba Bb). f_equal.
+  apply rename_block_ext. intros x Hx. unfold subst_name, swap_name.
+  destruct (text_eqb x a); [reflexivity|]. destruct (text_eqb x b) eqn:E; [|reflexivity].
+  apply text_eqb_eq in E. subst. contradiction.
+Qed.
+
+Theorem eval_rename_fresh : forall u orc src1 src2 ast budget a b,
+  a <> [] -> b <> [] -> is_builtin_name a = false -> is_builtin_name b = false ->
+  ~ In b (names_block ast) ->
+  parse u (parse_float orc) src1 = Ok ast ->
+  parse u (parse_float orc) src2 = Ok (rename_block (subst_name a b) ast) ->
+  eval u orc src2 budget = eval u orc src1 budget.
+Proof.
+  intros u orc src1 src2 ast budget a b Ha Hb Ba Bb Hf P1 P2.
+  assert (E : rename_block (subst_name a b) ast = rename_block (swap_name a b) ast).
+  { apply rename_block_ext. intros x Hx. unfold subst_name, swap_name.
+    destruct (text_eqb x a); [reflexivity|]. destruct (text_eqb x b) eqn:E; [|reflexivity].
+    apply text_eqb_eq in E. subst. contradiction. }
+  rewrite E in P2. eapply (eval_alpha (swap_name a b)); eauto.
+  - apply swap_name_inj.
+  - now apply swap_name_nonempty.
+  - now apply swap_name_builtin.
+Qed.
+
+(** * Examples (non-vacuity, and why each hypothesis is there) *)
+Definition ex_u : unicode := mkUnicode (fun _ => false) (fun _ => false).
+Definition ex_orc : oracle := mkOracle (fun _ => []) (fun _ => None) (fun x _ => x).
+Definition ex_parse (s : string) : outcome block := parse ex_u (parse_float ex_orc) (str_cps s).
+Definition ex_ast (s : string) : block := match ex_parse s with Ok b => b | _ => [] end.
+
+(* shadowing in a function (parameter and inner block), a loop with a nested block and stop, a call *)
+Definition ex_src (a : string) : string :=
+  ("stel " ++ a ++ " = 1; stel b = 0; " ++
+   "functie f(" ++ a ++ ", n) { stel c = " ++ a ++ " + n; als c > 2 { stel " ++ a ++ " = c * 2; antwoord " ++ a ++ " } anders { antwoord n } } " ++
+   "zolang " ++ a ++ " < 10 { " ++ a ++ " = " ++ a ++ " + 1; { stel " ++ a ++ " = 5; b = b + " ++ a ++ " } als " ++ a ++ " == 7 { stop } } " ++
+   "print(f(" ++ a ++ ", 2), b)")%string.
+
+Definition ex_r : text -> text := swap_name (str_cps "a") (str_cps "hernoemd_a").
+
+Example ex_alpha :
+  let p := ex_ast (ex_src "a") in
+  ex_parse (ex_src "a") = Ok p /\
+  ex_parse (ex_src "hernoemd_a") = Ok (rename_block ex_r p) /\
+  compile (rename_block ex_r p) = compile p /\
+  (exists bc, compile p = Ok bc /\ (100 <? length (b_code bc)) = true) /\
+  fn_ok_block p = true /\ (bsize p <=? 200) = true /\ static_check 200 p = None.
+Proof. vm_compute. repeat split; try reflexivity. eexists. split; reflexivity. Qed.
+
+(* the same by the theorem, with its hypotheses discharged for the transposition *)
+Example ex_alpha_by_theorem :
+  compile (rename_block ex_r (ex_ast (ex_src "a"))) = compile (ex_ast (ex_src "a")).
+Proof. apply compile_swap; (discriminate || reflexivity). Qed.
+
+
+Lemma notin_by_eqb : forall (b : text) l, forallb (fun y => negb (text_eqb y b)) l = true -> ~ In b l.
+Proof.
+  intros b l H Hi. rewrite forallb_forall in H. specialize (H b Hi). now rewrite text_eqb_refl in H.
+Qed.
+
+(* the literal statement: the variable a renamed to the fresh name hernoemd_a *)
+Example ex_fresh :
+  let p := ex_ast (ex_src "a") in
+  rename_block (subst_name (str_cps "a") (str_cps "hernoemd_a")) p = ex_ast (ex_src "hernoemd_a") /\
+  compile (ex_ast (ex_src "hernoemd_a")) = compile p.
+Proof.
+  cbv zeta. assert (E : rename_block (subst_name (str_cps "a") (str_cps "hernoemd_a")) (ex_ast (ex_src "a")) =
+                        ex_ast (ex_src "hernoemd_a")) by (vm_compute; reflexivity).
+  split; [exact E|]. rewrite <- E. apply compile_rename_fresh; try discriminate; try reflexivity.
+  apply notin_by_eqb. vm_compute. reflexivity.
+Qed.
+
+(* WHY r must not map a variable onto a builtin's name: the call head then resolves to the builtin *)
+Definition ex_r_builtin : text -> text := swap_name (str_cps "a") (str_cps "print").
+Example ex_builtin_capture :
+  let p := ex_ast "stel a = functie(x) { x }; a(1)" in
+  compile (rename_block ex_r_builtin p) <> compile p /\
+  (exists bc, compile p = Ok bc) /\ (exists bc, compile (rename_block ex_r_builtin p) = Ok bc).
+Proof. vm_compute. split; [discriminate|]. split; eexists; reflexivity. Qed.
+
+(* WHY r must be injective: merging two names changes which slot is read *)
+Definition ex_r_merge (x : text) : text := if text_eqb x (str_cps "b") then str_cps "a" else x.
+Example ex_merge :
+  let p := ex_ast "stel a = 1; stel b = 2; print(a)" in
+  compile (rename_block ex_r_merge p) <> compile p.
+Proof. vm_compute. discriminate. Qed.
+
+(* WHY r must not map a name to the empty (anonymous) name: the function is then no longer declared *)
+Definition ex_r_anon (x : text) : text := if text_eqb x (str_cps "f") then [] else x.
+Example ex_anon :
+  let p := ex_ast "functie f() { 1 }" in
+  compile (rename_block ex_r_anon p) <> compile p.
+Proof. vm_compute. discriminate. Qed.
+
+(* an undeclared name: rejected by the static pass, by the compiler, and eval runs nothing *)
+Example ex_undeclared :
+  let src := "print(1); stel x = 2; print(x + y)"%string in
+  let p := ex_ast src in
+  ex_parse src = Ok p /\ fn_ok_block p = true /\ (bsize p <=? 50) = true /\
+  static_check 50 p = Some EReferenceError /\ compile p = Err EReferenceError /\
+  eval ex_u ex_orc (str_cps src) 1000 = FrontError (Err EReferenceError).
+Proof. vm_compute. repeat split; reflexivity. Qed.
+
+(* stop outside a loop of the same function; antwoord outside a function *)
+Example ex_misplaced :
+  let p1 := ex_ast "zolang ja { functie g() { stop } }" in
+  let p2 := ex_ast "antwoord 1" in
+  static_check 50 p1 = Some ESyntaxError /\ compile p1 = Err ESyntaxError /\
+  static_check 50 p2 = Some ESyntaxError /\ compile p2 = Err ESyntaxError.
+Proof. vm_compute. repeat split; reflexivity. Qed.
+
+(* COUNTEREXAMPLE to accepted_scoped without fn_ok_block: a NAMED function literal in expression position
+   (the parser accepts it) is declared by the compiler in the enclosing scope, but not by Sem.check_block *)
+Example ex_named_fn_expr :
+  let src := "stel x = functie g() { 1 }; g()"%string in
+  let p := ex_ast src in
+  ex_parse src = Ok p /\ fn_ok_block p = false /\
+  (exists bc, compile p = Ok bc) /\ static_check 100 p = Some EReferenceError.
+Proof. vm_compute. repeat split; try reflexivity. eexists; reflexivity. Qed.
+
+Print Assumptions alpha_invariance.
+Print Assumptions compile_alpha.
+Print Assumptions eval_alpha.
+Print Assumptions compile_swap.
+Print Assumptions compile_statements_scoped.
+Print Assumptions accepted_scoped.
+Print Assumptions undeclared_rejected.
+Print Assumptions undeclared_rejected_err.
+Print Assumptions undeclared_never_runs.
+Print Assumptions compile_never_out_of_fuel.
+Print Assumptions compile_error_scoped.
+Print Assumptions reference_error_exact.
+Print Assumptions compile_rename_fresh.
+Print Assumptions eval_rename_fresh.
